@@ -43,6 +43,8 @@ Lemma cstart_app id t1 t2 : cstart id (t1 ++ t2) = cstart id t1 + cstart id t2.
 Proof. apply cnt_app. Qed.
 Lemma cstop_app id t1 t2 : cstop id (t1 ++ t2) = cstop id t1 + cstop id t2.
 Proof. apply cnt_app. Qed.
+Lemma cstart_nil id : cstart id [] = 0. Proof. reflexivity. Qed.
+Lemma cstop_nil id : cstop id [] = 0. Proof. reflexivity. Qed.
 Lemma cstart_calls id tr : Forall is_call tr -> cstart id tr = 0.
 Proof. unfold cstart, cnt. induction 1 as [|t tr Ht _ IH]; simpl; [reflexivity|]. destruct t; simpl in *; tauto. Qed.
 Lemma cstop_calls id tr : Forall is_call tr -> cstop id tr = 0.
@@ -155,7 +157,7 @@ Proof.
   rewrite app_nil_r. eauto.
 Qed.
 
-Ltac cn := unfold cineq in *; repeat rewrite ?cstart_app, ?cstop_app, ?nun_fin, ?nrun_fin, ?avail_fin in *.
+Ltac cn := unfold cineq in *; repeat rewrite ?cstart_app, ?cstop_app, ?cstart_nil, ?cstop_nil, ?nun_fin, ?nrun_fin, ?avail_fin in *.
 
 (* the successor of a sequential algorithm *)
 Lemma seq_next_c id k a b ns tra oa st tr r :
@@ -165,10 +167,10 @@ Lemma seq_next_c id k a b ns tra oa st tr r :
 Proof.
   intros Hk Sb H. unfold seq_next in H.
   destruct (after_first k (n_env ns) oa) as [o'|[en2 sv]] eqn:Haf.
-  - inv H. exists []. rewrite app_nil_r. split; [reflexivity|]. apply cineq_fin; simpl; lia.
+  - inv H. exists []. rewrite app_nil_r. split; [reflexivity|]. apply cineq_fin; cn; lia.
   - destruct (start b en2) as [[sb trb] rb] eqn:Hb. specialize (Sb id _ _ _ _ Hb).
     exists trb. destruct rb; inv H; (split; [reflexivity|]).
-    + cn. apply cineq_fin; lia.
+    + cn. lia.
     + cn. rewrite nun_bin, nrun_bin, avail_seq2, nun_fin, nrun_fin by (auto; simpl; discriminate). lia.
 Qed.
 
@@ -198,7 +200,7 @@ Proof.
   destruct fin as [o1|].
   - exists []. rewrite app_nil_r. split.
     + rewrite finish_some in H. inv H. rewrite app_nil_r. reflexivity.
-    + rewrite finish_some in H. inv H. apply cineq_fin; simpl; lia.
+    + rewrite finish_some in H. inv H. apply cineq_fin; cn; lia.
   - destruct newly.
     + destruct (stop a sa) as [[sa' tra] ra] eqn:Hs. specialize (Pa id _ _ _ _ Hs).
       exists tra. destruct ra as [oa|].
@@ -207,11 +209,11 @@ Proof.
         { apply finish_cases2 in H; [|reflexivity]. destruct H as [(? & _ & _ & -> & _)|(_ & _ & -> & _)]; reflexivity. }
         split; [exact E|]. subst tr'.
         destruct fin2 as [o2|].
-        -- rewrite finish_some in H. inv H. cn. apply cineq_fin; lia.
+        -- rewrite finish_some in H. inv H. cn. lia.
         -- rewrite finish_none in H. inv H. cn. rewrite nun_bin, nrun_bin, avail_conc by exact Hk. lia.
       * inv H. split; [reflexivity|]. cn. rewrite nun_bin, nrun_bin, avail_conc by exact Hk. lia.
     + inv H. exists []. rewrite app_nil_r. split; [reflexivity|].
-      cn. rewrite nun_bin, nrun_bin, avail_conc by exact Hk. simpl. lia.
+      cn. rewrite nun_bin, nrun_bin, avail_conc by exact Hk. lia.
 Qed.
 
 Lemma conc_a_done_c id k a b ns sa' sb tr oa st tr' r :
@@ -226,7 +228,7 @@ Proof.
   destruct fin as [o1|].
   - exists []. rewrite app_nil_r. split.
     + rewrite finish_some in H. inv H. rewrite app_nil_r. reflexivity.
-    + rewrite finish_some in H. inv H. apply cineq_fin; simpl; lia.
+    + rewrite finish_some in H. inv H. apply cineq_fin; cn; lia.
   - destruct newly.
     + destruct (stop b sb) as [[sb' trb] rb] eqn:Hs. specialize (Pb id _ _ _ _ Hs).
       exists trb. destruct rb as [ob|].
@@ -235,9 +237,1562 @@ Proof.
         { apply finish_cases2 in H; [|reflexivity]. destruct H as [(? & _ & _ & -> & _)|(_ & _ & -> & _)]; reflexivity. }
         split; [exact E|]. subst tr'.
         destruct fin2 as [o2|].
-        -- rewrite finish_some in H. inv H. cn. apply cineq_fin; lia.
+        -- rewrite finish_some in H. inv H. cn. lia.
         -- rewrite finish_none in H. inv H. cn. rewrite nun_bin, nrun_bin, avail_conc by exact Hk. lia.
       * inv H. split; [reflexivity|]. cn. rewrite nun_bin, nrun_bin, avail_conc by exact Hk. lia.
     + inv H. exists []. rewrite app_nil_r. split; [reflexivity|].
-      cn. rewrite nun_bin, nrun_bin, avail_conc by exact Hk. simpl. lia.
+      cn. rewrite nun_bin, nrun_bin, avail_conc by exact Hk. lia.
 Qed.
+
+Lemma start_conc_c id k a b en st tr r :
+  is_seq k = false -> StartC a -> StopC a -> StartC b ->
+  start_conc k a b en = (st, tr, r) ->
+  cineq id (Bin k a b) st tr 0 0 (occ id (Bin k a b)).
+Proof.
+  intros Hk Sa Pa Sb H. unfold start_conc in H. rewrite occ_bin.
+  destruct (start a (env_own en (e_stopped en))) as [[sa tra] ra] eqn:Ha.
+  specialize (Sa id _ _ _ _ Ha).
+  destruct (match ra with
+            | Some oa => conc_child_done k (conc_ns0 en) false oa
+            | None => (conc_ns0 en, false, None) end) as [[ns1 x1] x2] eqn:Hm.
+  destruct (start b (env_own en (own_stop ns1))) as [[sb trb] rb] eqn:Hb.
+  specialize (Sb id _ _ _ _ Hb).
+  destruct rb as [ob|].
+  - destruct (conc_b_done_c id k a b _ _ _ _ _ _ _ _ Hk Pa H) as (tra2 & -> & Hc).
+    cn. lia.
+  - inv H. cn. rewrite nun_bin, nrun_bin, avail_conc by exact Hk. lia.
+Qed.
+
+Lemma stop_conc_c id k a b ns sa sb st' tr r :
+  is_seq k = false -> StopC a -> StopC b ->
+  stop_conc k a b ns sa sb = (st', tr, r) ->
+  cineq id (Bin k a b) st' tr (nun id a sa + nun id b sb) (nrun id a sa + nrun id b sb)
+        (avail id a sa + avail id b sb).
+Proof.
+  intros Hk Pa Pb H. unfold stop_conc in H.
+  destruct (if bdone ns then (sb, [], None) else stop b sb) as [[sb' trb] rb] eqn:Hb.
+  assert (Cb : cineq id b sb' trb (nun id b sb) (nrun id b sb) (avail id b sb)).
+  { destruct (bdone ns); [inv Hb; cn; lia|]. eapply Pb; eassumption. }
+  destruct (match rb with
+            | Some ob => conc_child_done k (ns_set_own (stopped_ns ns) true) true ob
+            | None => (ns_set_own (stopped_ns ns) true, false, None) end) as [[ns2 x] fin1] eqn:Hm.
+  destruct fin1 as [o1|].
+  - eapply finish_c; [exact Hk|exact H|reflexivity|..]; cn; lia.
+  - destruct (if adone ns2 then (sa, [], None) else stop a sa) as [[sa' tra] ra] eqn:Ha.
+    assert (Ca : cineq id a sa' tra (nun id a sa) (nrun id a sa) (avail id a sa)).
+    { destruct (adone ns2); [inv Ha; cn; lia|]. eapply Pa; eassumption. }
+    destruct (match ra with
+              | Some oa => conc_child_done k ns2 false oa
+              | None => (ns2, false, None) end) as [[ns3 y] fin2] eqn:Hm2.
+    eapply finish_c; [exact Hk|exact H|reflexivity|..]; cn; lia.
+Qed.
+
+Lemma leafev_conc_c id0 k a b ns sa sb id o st' tr r hit :
+  is_seq k = false -> LeafevC a -> LeafevC b -> StopC a -> StopC b ->
+  leafev_conc k a b ns sa sb id o = (st', tr, r, hit) ->
+  cineq id0 (Bin k a b) st' tr (nun id0 a sa + nun id0 b sb) (nrun id0 a sa + nrun id0 b sb)
+        (avail id0 a sa + avail id0 b sb) /\
+  (hit = true -> nrun id (Bin k a b) st' + 1 <= nrun id a sa + nrun id b sb + cstart id tr).
+Proof.
+  intros Hk La Lb Pa Pb H. unfold leafev_conc in H.
+  destruct (if adone ns then (sa, [], None, false) else leafev a sa id o) as [[[sa' tra] ra] hita] eqn:Ha.
+  destruct hita.
+  - assert (Ca : cineq id0 a sa' tra (nun id0 a sa) (nrun id0 a sa) (avail id0 a sa) /\
+                 nrun id a sa' + 1 <= nrun id a sa + cstart id tra).
+    { destruct (adone ns); [inv Ha|]. destruct (La id0 _ _ _ _ _ _ _ Ha) as [C1 C2]. auto. }
+    destruct Ca as [Ca Ca'].
+    destruct ra as [oa|].
+    + injection H as H Hhit.
+      destruct (conc_a_done_c id0 k a b _ _ _ _ _ _ _ _ Hk Pb H) as (trb & -> & Hc).
+      destruct (conc_a_done_c id k a b _ _ _ _ _ _ _ _ Hk Pb H) as (trb' & E & Hc').
+      apply app_inv_head in E. subst trb'.
+      cn. split; [lia|]. intros _. lia.
+    + inv H. cn. rewrite !nun_bin, !nrun_bin, !avail_conc by exact Hk. split; [lia|]. intros _. lia.
+  - destruct (if bdone ns then (sb, [], None, false) else leafev b sb id o) as [[[sb' trb] rb] hitb] eqn:Hb.
+    assert (Cb : cineq id0 b sb' trb (nun id0 b sb) (nrun id0 b sb) (avail id0 b sb) /\
+                 (hitb = true -> nrun id b sb' + 1 <= nrun id b sb + cstart id trb)).
+    { destruct (bdone ns); [inv Hb; split; [cn; lia|discriminate]|].
+      destruct (Lb id0 _ _ _ _ _ _ _ Hb) as [C1 C2]. auto. }
+    destruct Cb as [Cb Cb'].
+    destruct rb as [ob|].
+    + injection H as H Hhit. subst hitb.
+      destruct (conc_b_done_c id0 k a b _ _ _ _ _ _ _ _ Hk Pa H) as (tra2 & -> & Hc).
+      destruct (conc_b_done_c id k a b _ _ _ _ _ _ _ _ Hk Pa H) as (tra2' & E & Hc').
+      apply app_inv_head in E. subst tra2'.
+      cn. split; [lia|]. intros Hh. specialize (Cb' Hh). lia.
+    + inv H. cn. rewrite !nun_bin, !nrun_bin, !avail_conc by exact Hk.
+      split; [lia|]. intros Hh. specialize (Cb' Hh). lia.
+Qed.
+
+Lemma start_stop_c e : StartC e /\ StopC e.
+Proof.
+  induction e as [v|x| |n|i|i|k s IH|k a IHa b IHb].
+  - split; [intros id en st tr r H; simpl in H; inv H; apply cineq_fin; cn; lia
+           |intros id st st' tr r H; destruct st; simpl in H; inv H; cn; simpl; lia].
+  - split; [intros id en st tr r H; simpl in H; inv H; apply cineq_fin; cn; lia
+           |intros id st st' tr r H; destruct st; simpl in H; inv H; cn; simpl; lia].
+  - split; [intros id en st tr r H; simpl in H; inv H; apply cineq_fin; cn; lia
+           |intros id st st' tr r H; destruct st; simpl in H; inv H; cn; simpl; lia].
+  - split; [intros id en st tr r H; simpl in H; inv H; apply cineq_fin; cn; lia
+           |intros id st st' tr r H; destruct st; simpl in H; inv H; cn; simpl; lia].
+  - split.
+    + intros id en st tr r H. simpl in H.
+      destruct (e_stopped en); inv H; unfold cineq, cstop, cstart, cnt, occ; simpl; unfold ind;
+        destruct (Nat.eqb i id); simpl; lia.
+    + intros id st st' tr r H. destruct st as [|c sn|]; simpl in H; try (inv H; cn; simpl; lia).
+      destruct c, sn; inv H; unfold cineq, cstop, cstart, cnt, occ; simpl; unfold ind;
+        destruct (Nat.eqb i id); simpl; lia.
+  - split.
+    + intros id en st tr r H. simpl in H.
+      destruct (e_stopped en); inv H; unfold cineq, cstop, cstart, cnt, occ; simpl; unfold ind;
+        destruct (Nat.eqb i id); simpl; lia.
+    + intros id st st' tr r H. destruct st as [|c sn|]; simpl in H; try (inv H; cn; simpl; lia).
+      destruct c, sn; inv H; unfold cineq, cstop, cstart, cnt, occ; simpl; unfold ind;
+        destruct (Nat.eqb i id); simpl; lia.
+  - destruct IH as [Ss Ps]. split.
+    + intros id en st tr r H. rewrite start_un in H.
+      destruct (start s (un_env k en)) as [[sc tr1] r1] eqn:Hs. specialize (Ss id _ _ _ _ Hs).
+      rewrite occ_un. destruct r1 as [o1|].
+      * destruct (un_result k o1) as [tr2 o'] eqn:Hu. inv H. apply un_result_calls in Hu.
+        cn. rewrite (cstart_calls _ _ Hu), (cstop_calls _ _ Hu). lia.
+      * inv H. cn. rewrite nun_un, nrun_un, avail_un. lia.
+    + intros id st st' tr r H.
+      destruct st as [|c sn|ns sc sb]; [rewrite stop_fin in H; inv H; cn; lia|simpl in H; inv H; cn; simpl; lia|].
+      rewrite nun_un, nrun_un, avail_un.
+      destruct (is_unst k) eqn:Hk.
+      * apply is_unst_true in Hk. subst k. rewrite stop_un_unst in H. inv H.
+        cn. rewrite nun_un, nrun_un, avail_un. lia.
+      * rewrite stop_un in H by exact Hk. unfold stop_un_body in H.
+        destruct (stop s sc) as [[sc' tr1] r1] eqn:Hs. specialize (Ps id _ _ _ _ Hs).
+        destruct r1 as [o1|].
+        -- destruct (un_result k o1) as [tr2 o'] eqn:Hu. inv H. apply un_result_calls in Hu.
+           cn. rewrite (cstart_calls _ _ Hu), (cstop_calls _ _ Hu). lia.
+        -- inv H. cn. rewrite nun_un, nrun_un, avail_un. lia.
+  - destruct IHa as [Sa Pa]. destruct IHb as [Sb Pb].
+    destruct (is_seq k) eqn:Hk.
+    + split.
+      * intros id en st tr r H. rewrite start_bin_seq in H by exact Hk. unfold start_seq in H.
+        rewrite occ_bin.
+        destruct (start a en) as [[sa tra] ra] eqn:Ha. specialize (Sa id _ _ _ _ Ha).
+        destruct ra as [oa|].
+        -- destruct (seq_next_c id k a b _ _ _ _ _ _ Hk Sb H) as (trb & -> & Hc). cn. lia.
+        -- inv H. cn. rewrite nun_bin, nrun_bin, avail_seq1, nun_fin, nrun_fin by (auto; reflexivity). lia.
+      * intros id st st' tr r H.
+        destruct st as [|c sn|ns sa sb]; [rewrite stop_fin in H; inv H; cn; lia|simpl in H; inv H; cn; simpl; lia|].
+        rewrite stop_bin, Hk in H. rewrite nun_bin, nrun_bin.
+        destruct (ph ns) eqn:Hp.
+        -- rewrite avail_seq1 by assumption.
+           unfold stop_seq1 in H. destruct (stop a sa) as [[sa' tra] ra] eqn:Ha.
+           specialize (Pa id _ _ _ _ Ha).
+           destruct ra as [oa|].
+           ++ destruct (seq_next_c id k a b _ _ _ _ _ _ Hk Sb H) as (trb & -> & Hc). cn. lia.
+           ++ inv H. cn. rewrite nun_bin, nrun_bin, avail_seq1 by assumption. lia.
+        -- rewrite avail_seq2 by (auto; congruence).
+           unfold stop_seq2 in H. destruct (stop b sb) as [[sb' trb] rb] eqn:Hb.
+           specialize (Pb id _ _ _ _ Hb).
+           destruct rb; inv H; cn; [lia|].
+           rewrite nun_bin, nrun_bin, avail_seq2 by (auto; simpl; congruence). lia.
+        -- rewrite avail_seq2 by (auto; congruence).
+           unfold stop_seq2 in H. destruct (stop b sb) as [[sb' trb] rb] eqn:Hb.
+           specialize (Pb id _ _ _ _ Hb).
+           destruct rb; inv H; cn; [lia|].
+           rewrite nun_bin, nrun_bin, avail_seq2 by (auto; simpl; congruence). lia.
+    + split.
+      * intros id en st tr r H. rewrite start_bin_conc in H by exact Hk.
+        eapply start_conc_c; eauto.
+      * intros id st st' tr r H.
+        destruct st as [|c sn|ns sa sb]; [rewrite stop_fin in H; inv H; cn; lia|simpl in H; inv H; cn; simpl; lia|].
+        rewrite stop_bin, Hk in H. rewrite nun_bin, nrun_bin, avail_conc by exact Hk.
+        destruct (own_stop ns).
+        -- inv H. cn. rewrite nun_bin, nrun_bin, avail_conc by exact Hk. lia.
+        -- eapply stop_conc_c; eauto.
+Qed.
+
+Lemma leafev_c e : LeafevC e.
+Proof.
+  induction e as [v|x| |n|i|i|k s IH|k a IHa b IHb].
+  - intros id0 st id o st' tr r hit H; destruct st; simpl in H; inv H; (split; [cn; simpl; lia|discriminate]).
+  - intros id0 st id o st' tr r hit H; destruct st; simpl in H; inv H; (split; [cn; simpl; lia|discriminate]).
+  - intros id0 st id o st' tr r hit H; destruct st; simpl in H; inv H; (split; [cn; simpl; lia|discriminate]).
+  - intros id0 st id o st' tr r hit H; destruct st; simpl in H; inv H; (split; [cn; simpl; lia|discriminate]).
+  - intros id0 st id o st' tr r hit H. destruct st as [|c sn|]; simpl in H; try (inv H; split; [cn; simpl; lia|discriminate]).
+    destruct c; [inv H; split; [cn; simpl; lia|discriminate]|].
+    destruct (Nat.eqb id i) eqn:E; inv H.
+    + apply Nat.eqb_eq in E. subst i. split; [cn; simpl; lia|]. intros _. simpl. unfold ind. rewrite Nat.eqb_refl. cn. lia.
+    + split; [cn; simpl; lia|discriminate].
+  - intros id0 st id o st' tr r hit H. destruct st as [|c sn|]; simpl in H; try (inv H; split; [cn; simpl; lia|discriminate]).
+    destruct c; [inv H; split; [cn; simpl; lia|discriminate]|].
+    destruct (Nat.eqb id i) eqn:E; inv H.
+    + apply Nat.eqb_eq in E. subst i. split; [cn; simpl; lia|]. intros _. simpl. unfold ind. rewrite Nat.eqb_refl. cn. lia.
+    + split; [cn; simpl; lia|discriminate].
+  - intros id0 st id o st' tr r hit H.
+    destruct st as [|c sn|ns sc sb]; [rewrite leafev_fin in H; inv H; split; [cn; lia|discriminate]
+                                     |simpl in H; inv H; split; [cn; simpl; lia|discriminate]|].
+    rewrite leafev_un in H. unfold leafev_un_body in H.
+    destruct (leafev s sc id o) as [[[sc' tr1] r1] h1] eqn:Hs.
+    destruct (IH id0 _ _ _ _ _ _ _ Hs) as [C1 C2].
+    rewrite !nun_un, !nrun_un, !avail_un.
+    destruct r1 as [o1|].
+    + destruct (un_result k o1) as [tr2 o'] eqn:Hu. inv H. apply un_result_calls in Hu.
+      cn. rewrite !(cstart_calls _ _ Hu), (cstop_calls _ _ Hu). split; [lia|]. intros Hh. specialize (C2 Hh). lia.
+    + inv H. cn. rewrite !nun_un, !nrun_un, !avail_un. split; [lia|]. exact C2.
+  - destruct (start_stop_c a) as [Sa Pa]. destruct (start_stop_c b) as [Sb Pb].
+    intros id0 st id o st' tr r hit H.
+    destruct st as [|c sn|ns sa sb]; [rewrite leafev_fin in H; inv H; split; [cn; lia|discriminate]
+                                     |simpl in H; inv H; split; [cn; simpl; lia|discriminate]|].
+    rewrite leafev_bin in H. rewrite !nun_bin, !nrun_bin.
+    destruct (is_seq k) eqn:Hk.
+    + destruct (ph ns) eqn:Hp.
+      * rewrite avail_seq1 by assumption.
+        unfold leafev_seq1 in H. destruct (leafev a sa id o) as [[[sa' tra] ra] h1] eqn:Ha.
+        destruct (IHa id0 _ _ _ _ _ _ _ Ha) as [C1 C2].
+        destruct ra as [oa|].
+        -- injection H as H Hhit. subst h1.
+           destruct (seq_next_c id0 k a b _ _ _ _ _ _ Hk Sb H) as (trb & -> & Hc).
+           destruct (seq_next_c id k a b _ _ _ _ _ _ Hk Sb H) as (trb' & E & Hc').
+           apply app_inv_head in E. subst trb'.
+           cn. split; [lia|]. intros Hh. specialize (C2 Hh). lia.
+        -- inv H. cn. rewrite !nun_bin, !nrun_bin, !avail_seq1 by assumption.
+           split; [lia|]. intros Hh. specialize (C2 Hh). lia.
+      * rewrite avail_seq2 by (auto; congruence).
+        unfold leafev_seq2 in H. destruct (leafev b sb id o) as [[[sb' trb] rb] h1] eqn:Hb.
+        destruct (IHb id0 _ _ _ _ _ _ _ Hb) as [C1 C2].
+        destruct rb; inv H; cn.
+        -- split; [lia|]. intros Hh. specialize (C2 Hh). lia.
+        -- rewrite !nun_bin, !nrun_bin, !avail_seq2 by (auto; congruence).
+           split; [lia|]. intros Hh. specialize (C2 Hh). lia.
+      * rewrite avail_seq2 by (auto; congruence).
+        unfold leafev_seq2 in H. destruct (leafev b sb id o) as [[[sb' trb] rb] h1] eqn:Hb.
+        destruct (IHb id0 _ _ _ _ _ _ _ Hb) as [C1 C2].
+        destruct rb; inv H; cn.
+        -- split; [lia|]. intros Hh. specialize (C2 Hh). lia.
+        -- rewrite !nun_bin, !nrun_bin, !avail_seq2 by (auto; congruence).
+           split; [lia|]. intros Hh. specialize (C2 Hh). lia.
+    + rewrite avail_conc by exact Hk. eapply leafev_conc_c; eauto.
+Qed.
+
+(* ---- consequences of the counting lemmas used below -------------------------------------------- *)
+Lemma occ_pos_in id e : 1 <= occ id e -> In id (leaf_ids e).
+Proof.
+  unfold occ. induction (leaf_ids e) as [|x l IH]; simpl; [lia|].
+  destruct (Nat.eqb x id) eqn:E.
+  - apply Nat.eqb_eq in E. auto.
+  - auto.
+Qed.
+Lemma avail_le_occ id e : forall st, avail id e st <= occ id e.
+Proof.
+  induction e; intros st; destruct st as [|c s|ns sa sb]; simpl; try lia.
+  - rewrite occ_un. apply IHe.
+  - rewrite occ_bin. specialize (IHe1 sa). specialize (IHe2 sb).
+    destruct (is_seq k); [destruct (ph ns)|]; lia.
+Qed.
+Lemma start_in_cstart id s sp a b tr : In (TLeafStart id s sp a b) tr -> 1 <= cstart id tr.
+Proof. intros H. eapply in_cnt_pos; [exact H|]. simpl. apply Nat.eqb_refl. Qed.
+Lemma stop_in_cstop id tr : In (TLeafStop id) tr -> 1 <= cstop id tr.
+Proof. intros H. eapply in_cnt_pos; [exact H|]. simpl. apply Nat.eqb_refl. Qed.
+Lemma cstart_in id tr : 1 <= cstart id tr -> exists s sp a b, In (TLeafStart id s sp a b) tr.
+Proof.
+  intros H. apply cnt_pos_in in H. destruct H as (t & Hin & Hp).
+  destruct t; simpl in Hp; try discriminate. apply Nat.eqb_eq in Hp. subst. eauto.
+Qed.
+Lemma cstop_in id tr : 1 <= cstop id tr -> In (TLeafStop id) tr.
+Proof.
+  intros H. apply cnt_pos_in in H. destruct H as (t & Hin & Hp).
+  destruct t; simpl in Hp; try discriminate. apply Nat.eqb_eq in Hp. subst. exact Hin.
+Qed.
+
+Lemma start_ids e en st tr r id s sp a b :
+  start e en = (st, tr, r) -> In (TLeafStart id s sp a b) tr -> In id (leaf_ids e).
+Proof.
+  intros H Hin. apply start_in_cstart in Hin.
+  destruct (start_stop_c e) as [S _]. destruct (S id _ _ _ _ H) as (_ & H2 & _).
+  apply occ_pos_in. lia.
+Qed.
+Lemma leafev_ids e st i o st' tr r hit id s sp a b :
+  leafev e st i o = (st', tr, r, hit) -> In (TLeafStart id s sp a b) tr -> In id (leaf_ids e).
+Proof.
+  intros H Hin. apply start_in_cstart in Hin.
+  destruct (leafev_c e id _ _ _ _ _ _ _ H) as ((_ & H2 & _) & _).
+  pose proof (avail_le_occ id e st). apply occ_pos_in. lia.
+Qed.
+
+(* ================================================================================================ *)
+(* Part 2: the stop-state invariant                                                                 *)
+(* ================================================================================================ *)
+
+(* running leaves [OLeaf false s] with [p s], on the current path(s); [cross] = also below unstoppable *)
+Fixpoint lv (cross : bool) (p : bool -> bool) (e : sexpr) (st : ost) : list nat :=
+  match e, st with
+  | Leaf id, OLeaf false s => if p s then [id] else []
+  | LeafN id, OLeaf false s => if p s then [id] else []
+  | Un k s, ONode _ sc _ => if (is_unst k && negb cross)%bool then [] else lv cross p s sc
+  | Bin k a b, ONode ns sa sb =>
+      if is_seq k then
+        match ph ns with PFirst => lv cross p a sa | _ => lv cross p b sb end
+      else lv cross p a sa ++ lv cross p b sb
+  | _, _ => []
+  end.
+(* running leaves connected to the stop token of the receiver of e *)
+Definition reach : sexpr -> ost -> list nat := lv false (fun _ => true).
+Definition reach_unseen : sexpr -> ost -> list nat := lv false negb.
+Definition reach_seen : sexpr -> ost -> list nat := lv false (fun s => s).
+Definition running_leaves : sexpr -> ost -> list nat := lv true (fun _ => true).
+
+Lemma lv_fin c p e : lv c p e OFin = [].
+Proof. destruct e; reflexivity. Qed.
+Lemma lv_un c p k s ns sc sb :
+  lv c p (Un k s) (ONode ns sc sb) = if (is_unst k && negb c)%bool then [] else lv c p s sc.
+Proof. reflexivity. Qed.
+Lemma lv_seq1 c p k a b ns sa sb : is_seq k = true -> ph ns = PFirst ->
+  lv c p (Bin k a b) (ONode ns sa sb) = lv c p a sa.
+Proof. intros H1 H2. simpl. rewrite H1, H2. reflexivity. Qed.
+Lemma lv_seq2 c p k a b ns sa sb : is_seq k = true -> ph ns <> PFirst ->
+  lv c p (Bin k a b) (ONode ns sa sb) = lv c p b sb.
+Proof. intros H1 H2. simpl. rewrite H1. destruct (ph ns); congruence. Qed.
+Lemma lv_conc c p k a b ns sa sb : is_seq k = false ->
+  lv c p (Bin k a b) (ONode ns sa sb) = lv c p a sa ++ lv c p b sb.
+Proof. intros H1. simpl. rewrite H1. reflexivity. Qed.
+
+Lemma lv_split c p e : forall st id,
+  In id (lv c (fun _ => true) e st) -> In id (lv c p e st) \/ In id (lv c (fun s => negb (p s)) e st).
+Proof.
+  induction e; intros st i H; destruct st as [|cc s|ns sa sb]; simpl in *; try contradiction.
+  - destruct cc; [contradiction|]. destruct (p s); simpl; auto.
+  - destruct cc; [contradiction|]. destruct (p s); simpl; auto.
+  - destruct (is_unst k && negb c)%bool; [contradiction|]. auto.
+  - destruct (is_seq k).
+    + destruct (ph ns); auto.
+    + apply in_app_or in H. rewrite !in_app_iff. destruct H as [H|H]; [apply IHe1 in H|apply IHe2 in H]; tauto.
+Qed.
+
+Definition chld (P : Prop) (sa : ost) (d : bool) : Prop := if d then sa = OFin else P.
+
+(* [live tok e st]: st is the state of a started, uncompleted operation of e whose receiver's stop
+   token currently answers stop_requested() = tok.  It says that every node on a path along which
+   stop requests propagate knows the current stop state, that running leaves connected to the token
+   have seen the request iff it was made, that the own source of when_all/stop_when is requested
+   whenever the outer token is, and that a live node has a live child. *)
+Fixpoint live (tok : bool) (e : sexpr) (st : ost) {struct e} : Prop :=
+  match e, st with
+  | Leaf _, OLeaf c s => c = false /\ s = tok
+  | LeafN _, OLeaf c s => c = false /\ s = tok
+  | Un k s, ONode ns sc _ =>
+      (is_unst k = false -> e_stopped (n_env ns) = tok) /\
+      live (if is_unst k then false else tok) s sc
+  | Bin k a b, ONode ns sa sb =>
+      e_stopped (n_env ns) = tok /\
+      if is_seq k then
+        match ph ns with PFirst => live tok a sa | _ => live tok b sb end
+      else
+        (tok = true -> own_stop ns = true) /\
+        (if adone ns then sa = OFin else live (own_stop ns) a sa) /\
+        (if bdone ns then sb = OFin else live (own_stop ns) b sb) /\
+        (adone ns && bdone ns)%bool = false
+  | _, _ => False
+  end.
+
+Lemma live_fin tok e : live tok e OFin -> False.
+Proof. destruct e; exact (fun H => H). Qed.
+Lemma live_un tok k s ns sc sb :
+  live tok (Un k s) (ONode ns sc sb) =
+  ((is_unst k = false -> e_stopped (n_env ns) = tok) /\ live (if is_unst k then false else tok) s sc).
+Proof. reflexivity. Qed.
+Lemma live_seq1 tok k a b ns sa sb : is_seq k = true -> ph ns = PFirst ->
+  live tok (Bin k a b) (ONode ns sa sb) = (e_stopped (n_env ns) = tok /\ live tok a sa).
+Proof. intros H1 H2. simpl. rewrite H1, H2. reflexivity. Qed.
+Lemma live_seq2 tok k a b ns sa sb : is_seq k = true -> ph ns <> PFirst ->
+  live tok (Bin k a b) (ONode ns sa sb) = (e_stopped (n_env ns) = tok /\ live tok b sb).
+Proof. intros H1 H2. simpl. rewrite H1. destruct (ph ns); congruence. Qed.
+Lemma live_conc tok k a b ns sa sb : is_seq k = false ->
+  live tok (Bin k a b) (ONode ns sa sb) =
+  (e_stopped (n_env ns) = tok /\ (tok = true -> own_stop ns = true) /\
+   chld (live (own_stop ns) a sa) sa (adone ns) /\ chld (live (own_stop ns) b sb) sb (bdone ns) /\
+   (adone ns && bdone ns)%bool = false).
+Proof. intros H1. simpl. rewrite H1. reflexivity. Qed.
+
+(* once the token is stopped, every running leaf connected to it has seen the request *)
+Lemma live_true_unseen e : forall st, live true e st -> reach_unseen e st = [].
+Proof.
+  unfold reach_unseen.
+  induction e; intros st H; destruct st as [|c s|ns sa sb]; simpl in *; try contradiction; try reflexivity.
+  - destruct H as [-> ->]. reflexivity.
+  - destruct H as [-> ->]. reflexivity.
+  - destruct H as [_ H]. destruct (is_unst k); simpl; [reflexivity|]. auto.
+  - destruct H as [_ H]. destruct (is_seq k).
+    + destruct (ph ns); auto.
+    + destruct H as (Ho & Ha & Hb & _). rewrite (Ho eq_refl) in Ha, Hb.
+      assert (Ea : lv false negb e1 sa = []) by (destruct (adone ns); [subst; apply lv_fin|auto]).
+      assert (Eb : lv false negb e2 sb = []) by (destruct (bdone ns); [subst; apply lv_fin|auto]).
+      rewrite Ea, Eb. reflexivity.
+Qed.
+
+(* a live operation has a running leaf *)
+Lemma live_running e : forall tok st, live tok e st -> running_leaves e st <> [].
+Proof.
+  unfold running_leaves.
+  induction e; intros tok st H; destruct st as [|c s|ns sa sb]; simpl in *; try contradiction.
+  - destruct H as [-> _]. discriminate.
+  - destruct H as [-> _]. discriminate.
+  - destruct H as [_ H]. rewrite andb_false_r. exact (IHe _ _ H).
+  - destruct H as [_ H]. destruct (is_seq k).
+    + destruct (ph ns); [exact (IHe1 _ _ H)|exact (IHe2 _ _ H)|exact (IHe2 _ _ H)].
+    + destruct H as (_ & Ha & Hb & Hd). intros E. apply app_eq_nil in E. destruct E as [Ea Eb].
+      destruct (adone ns); [destruct (bdone ns); [discriminate|]|].
+      * exact (IHe2 _ _ Hb Eb).
+      * exact (IHe1 _ _ Ha Ea).
+Qed.
+
+(* ---- leaf starts see the stop state --------------------------------------------------------------- *)
+Fixpoint under_unst (e : sexpr) : list nat :=
+  match e with
+  | Un k s => if is_unst k then leaf_ids s else under_unst s
+  | Bin _ a b => under_unst a ++ under_unst b
+  | _ => []
+  end.
+(* leaves not below unstoppable *)
+Fixpoint sreach (e : sexpr) : list nat :=
+  match e with
+  | Leaf id => [id]
+  | LeafN id => [id]
+  | Un k s => if is_unst k then [] else sreach s
+  | Bin _ a b => sreach a ++ sreach b
+  | _ => []
+  end.
+
+Definition tr_stopped (e : sexpr) (tr : list tev) : Prop :=
+  forall id s sp a b, In (TLeafStart id s sp a b) tr -> s = true \/ In id (under_unst e).
+
+Lemma trs_nil e : tr_stopped e [].
+Proof. intros id s sp a b []. Qed.
+Lemma trs_app e t1 t2 : tr_stopped e t1 -> tr_stopped e t2 -> tr_stopped e (t1 ++ t2).
+Proof. intros H1 H2 id s sp a b H. apply in_app_or in H. destruct H; eauto. Qed.
+Lemma trs_calls e tr : Forall is_call tr -> tr_stopped e tr.
+Proof.
+  intros H id s sp a b Hin. rewrite Forall_forall in H. apply H in Hin. contradiction Hin.
+Qed.
+Lemma trs_un k s tr : is_unst k = false -> tr_stopped s tr -> tr_stopped (Un k s) tr.
+Proof. intros Hk H id st sp a b Hin. simpl. rewrite Hk. eauto. Qed.
+Lemma trs_unst k s tr : is_unst k = true ->
+  (forall id st sp a b, In (TLeafStart id st sp a b) tr -> In id (leaf_ids s)) -> tr_stopped (Un k s) tr.
+Proof. intros Hk H id st sp a b Hin. simpl. rewrite Hk. right. eauto. Qed.
+Lemma trs_bin_a k a b tr : tr_stopped a tr -> tr_stopped (Bin k a b) tr.
+Proof. intros H id st sp x y Hin. simpl. rewrite in_app_iff. destruct (H _ _ _ _ _ Hin); auto. Qed.
+Lemma trs_bin_b k a b tr : tr_stopped b tr -> tr_stopped (Bin k a b) tr.
+Proof. intros H id st sp x y Hin. simpl. rewrite in_app_iff. destruct (H _ _ _ _ _ Hin); auto. Qed.
+#[global] Hint Resolve trs_nil trs_app trs_bin_a trs_bin_b : calc.
+
+Definition resL (tok : bool) (e : sexpr) (st : ost) (r : option outcome) : Prop :=
+  (r = None -> live tok e st) /\ (r <> None -> st = OFin).
+Lemma resL_some tok e o : resL tok e OFin (Some o).
+Proof. split; [discriminate|reflexivity]. Qed.
+Lemma resL_none tok e st : live tok e st -> resL tok e st None.
+Proof. split; [auto|congruence]. Qed.
+#[global] Hint Resolve resL_some resL_none : calc.
+
+Definition StartL (e : sexpr) : Prop := forall en st tr r,
+  start e en = (st, tr, r) ->
+  resL (e_stopped en) e st r /\ (e_stopped en = true -> tr_stopped e tr).
+Definition StopL (e : sexpr) : Prop := forall tok st st' tr r,
+  stop e st = (st', tr, r) -> live tok e st ->
+  resL true e st' r /\ tr_stopped e tr /\
+  (forall id, In id (reach_unseen e st) -> In (TLeafStop id) tr).
+Definition LeafevL (e : sexpr) : Prop := forall tok st id o st' tr r hit,
+  leafev e st id o = (st', tr, r, hit) -> live tok e st ->
+  resL tok e st' r /\ (tok = true -> tr_stopped e tr).
+
+Lemma seq_next_l tok k a b ns tra oa st tr r :
+  is_seq k = true -> StartL b -> e_stopped (n_env ns) = tok ->
+  seq_next k b ns tra oa = (st, tr, r) ->
+  resL tok (Bin k a b) st r /\ exists trb, tr = tra ++ trb /\ (tok = true -> tr_stopped b trb).
+Proof.
+  intros Hk Sb He H. unfold seq_next in H.
+  destruct (after_first k (n_env ns) oa) as [o'|[en2 sv]] eqn:Haf.
+  - inv H. split; auto with calc. exists []. rewrite app_nil_r. auto with calc.
+  - assert (He2 : e_stopped en2 = e_stopped (n_env ns)).
+    { apply after_first_env in Haf. destruct Haf as [->|[v ->]]; reflexivity. }
+    destruct (start b en2) as [[sb trb] rb] eqn:Hb.
+    destruct (Sb _ _ _ _ Hb) as [[L1 L2] T]. rewrite He2 in L1, T.
+    destruct rb as [ob|]; inv H.
+    + split; auto with calc. eauto.
+    + split; [|eauto]. apply resL_none. rewrite live_seq2 by (auto; simpl; discriminate).
+      split; [reflexivity|]. auto.
+Qed.
+
+Lemma ccd_both_done k ns i o ns2 nw fin :
+  conc_child_done k ns i o = (ns2, nw, fin) ->
+  (if i then adone ns else bdone ns) = true -> fin <> None.
+Proof.
+  intros H Hd. apply ccd_spec in H. destruct H as (_ & _ & _ & E4 & E5 & _ & _ & Hf).
+  intros E. apply Hf in E. rewrite E4, E5 in E. destruct i; rewrite Hd in E; discriminate.
+Qed.
+
+(* b completed (its state is gone), a possibly still running *)
+Lemma conc_b_done_l tok k a b ns sa sb' tr ob st tr' r :
+  is_seq k = false -> StopL a ->
+  e_stopped (n_env ns) = tok -> (tok = true -> own_stop ns = true) ->
+  chld (live (own_stop ns) a sa) sa (adone ns) -> sb' = OFin -> bdone ns = false ->
+  conc_b_done k a ns sa sb' tr ob = (st, tr', r) ->
+  resL tok (Bin k a b) st r /\ exists tra, tr' = tr ++ tra /\ tr_stopped a tra.
+Proof.
+  intros Hk Pa He Ho Ha -> Hbd H. unfold conc_b_done in H.
+  destruct (conc_child_done k ns true ob) as [[ns1 newly] fin] eqn:Hc.
+  apply ccd_spec in Hc. destruct Hc as (E1 & _ & _ & E4 & E5 & E6 & E7 & Ef).
+  destruct fin as [o1|].
+  - rewrite finish_some in H. inv H. split; auto with calc. exists []. auto with calc.
+  - assert (Had : adone ns = false).
+    { destruct Ef as [Ef _]. specialize (Ef eq_refl). rewrite E4, E5, andb_true_r in Ef. exact Ef. }
+    rewrite Had in Ha. simpl in Ha.
+    destruct newly.
+    + rewrite (E7 eq_refl) in *. simpl in E6.
+      destruct (stop a sa) as [[sa' tra] ra] eqn:Hs.
+      destruct (Pa _ _ _ _ _ Hs Ha) as ([L1 L2] & T & _).
+      destruct ra as [oa|].
+      * destruct (conc_child_done k ns1 false oa) as [[ns2 x] fin2] eqn:Hc2.
+        assert (Hf2 : fin2 <> None) by (eapply ccd_both_done; [exact Hc2|exact E5]).
+        destruct fin2 as [o2|]; [|congruence].
+        rewrite finish_some in H. inv H. split; auto with calc.
+        exists tra. rewrite app_nil_r. auto.
+      * inv H. split; [|eauto]. apply resL_none. rewrite live_conc by exact Hk.
+        rewrite E1, E4, E5, E6, Had. simpl. auto 6.
+    + inv H. split; [|exists []; rewrite app_nil_r; auto with calc].
+      apply resL_none. rewrite live_conc by exact Hk.
+      rewrite E1, E4, E5, E6, Had, orb_false_r. simpl. auto 6.
+Qed.
+
+Lemma conc_a_done_l tok k a b ns sa' sb tr oa st tr' r :
+  is_seq k = false -> StopL b ->
+  e_stopped (n_env ns) = tok -> (tok = true -> own_stop ns = true) ->
+  chld (live (own_stop ns) b sb) sb (bdone ns) -> sa' = OFin -> adone ns = false ->
+  conc_a_done k b ns sa' sb tr oa = (st, tr', r) ->
+  resL tok (Bin k a b) st r /\ exists trb, tr' = tr ++ trb /\ tr_stopped b trb.
+Proof.
+  intros Hk Pb He Ho Hb -> Had H. unfold conc_a_done in H.
+  destruct (conc_child_done k ns false oa) as [[ns1 newly] fin] eqn:Hc.
+  apply ccd_spec in Hc. destruct Hc as (E1 & _ & _ & E4 & E5 & E6 & E7 & Ef).
+  destruct fin as [o1|].
+  - rewrite finish_some in H. inv H. split; auto with calc. exists []. auto with calc.
+  - assert (Hbd : bdone ns = false).
+    { destruct Ef as [Ef _]. specialize (Ef eq_refl). rewrite E4, E5 in Ef. exact Ef. }
+    rewrite Hbd in Hb. simpl in Hb.
+    destruct newly.
+    + rewrite (E7 eq_refl) in *. simpl in E6.
+      destruct (stop b sb) as [[sb' trb] rb] eqn:Hs.
+      destruct (Pb _ _ _ _ _ Hs Hb) as ([L1 L2] & T & _).
+      destruct rb as [ob|].
+      * destruct (conc_child_done k ns1 true ob) as [[ns2 x] fin2] eqn:Hc2.
+        assert (Hf2 : fin2 <> None) by (eapply ccd_both_done; [exact Hc2|exact E4]).
+        destruct fin2 as [o2|]; [|congruence].
+        rewrite finish_some in H. inv H. split; auto with calc.
+        exists trb. rewrite app_nil_r. auto.
+      * inv H. split; [|eauto]. apply resL_none. rewrite live_conc by exact Hk.
+        rewrite E1, E4, E5, E6, Hbd. simpl. auto 6.
+    + inv H. split; [|exists []; rewrite app_nil_r; auto with calc].
+      apply resL_none. rewrite live_conc by exact Hk.
+      rewrite E1, E4, E5, E6, Hbd, orb_false_r. simpl. auto 6.
+Qed.
+
+Lemma un_env_stopped k en : e_stopped (un_env k en) = if is_unst k then false else e_stopped en.
+Proof. destruct k; try reflexivity. destruct q; reflexivity. Qed.
+
+Lemma start_conc_l k a b en st tr r :
+  is_seq k = false -> StartL a -> StopL a -> StartL b ->
+  start_conc k a b en = (st, tr, r) ->
+  resL (e_stopped en) (Bin k a b) st r /\ (e_stopped en = true -> tr_stopped (Bin k a b) tr).
+Proof.
+  intros Hk Sa Pa Sb H. unfold start_conc in H.
+  destruct (start a (env_own en (e_stopped en))) as [[sa tra] ra] eqn:Ha.
+  destruct (Sa _ _ _ _ Ha) as [[La1 La2] Ta].
+  change (e_stopped (env_own en (e_stopped en))) with (e_stopped en) in *.
+  destruct (match ra with
+            | Some oa => conc_child_done k (conc_ns0 en) false oa
+            | None => (conc_ns0 en, false, None) end) as [[ns1 x1] x2] eqn:Hm.
+  assert (F : n_env ns1 = en /\ bdone ns1 = false /\ (e_stopped en = true -> own_stop ns1 = true) /\
+              chld (live (own_stop ns1) a sa) sa (adone ns1)).
+  { destruct ra as [oa|].
+    - apply ccd_spec in Hm. destruct Hm as (E1 & _ & _ & E4 & E5 & E6 & E7 & _).
+      rewrite E1, E4, E5, E6. simpl. repeat split; auto.
+      + intros ->. reflexivity.
+      + apply La2. discriminate.
+    - inv Hm. simpl. repeat split; auto. }
+  destruct F as (F1 & F2 & F3 & F4).
+  destruct (start b (env_own en (own_stop ns1))) as [[sb trb] rb] eqn:Hb.
+  destruct (Sb _ _ _ _ Hb) as [[Lb1 Lb2] Tb].
+  change (e_stopped (env_own en (own_stop ns1))) with (own_stop ns1) in *.
+  destruct rb as [ob|].
+  - destruct (conc_b_done_l (e_stopped en) k a b ns1 sa OFin (tra ++ trb) ob st tr r Hk Pa)
+      as [R (tra2 & -> & T2)]; auto.
+    { rewrite F1. reflexivity. }
+    split; [exact R|]. intros Hs. auto 6 with calc.
+  - injection H as Hst Htr Hr. subst st tr r. split; [|intros Hs; auto 6 with calc].
+    apply resL_none. rewrite live_conc by exact Hk. rewrite F1, F2.
+    split; [reflexivity|]. split; [exact F3|]. split; [exact F4|]. split; [simpl; auto|].
+    apply andb_false_r.
+Qed.
+
+(* the optional stop of one child inside the cancel callback of a concurrent node *)
+Lemma opt_stop_l e (d : bool) s s' tr r :
+  StopL e -> chld (live false e s) s d ->
+  (if d then (s, [], None) else stop e s) = (s', tr, r) ->
+  (r = None -> chld (live true e s') s' d) /\ (r <> None -> s' = OFin /\ d = false) /\
+  tr_stopped e tr /\ (forall id, In id (reach_unseen e s) -> In (TLeafStop id) tr).
+Proof.
+  intros P Hc H. destruct d; simpl in *.
+  - inv H. split; [auto|]. split; [congruence|]. split; [apply trs_nil|].
+    unfold reach_unseen. rewrite lv_fin. intros id [].
+  - destruct (P _ _ _ _ _ H Hc) as ([L1 L2] & T & U). auto.
+Qed.
+
+Lemma opt_ccd k ns i (ro : option outcome) ns2 x fin :
+  match ro with Some o => conc_child_done k ns i o | None => (ns, false, None) end = (ns2, x, fin) ->
+  n_env ns2 = n_env ns /\ (own_stop ns = true -> own_stop ns2 = true) /\
+  adone ns2 = match ro with Some _ => if i then adone ns else true | None => adone ns end /\
+  bdone ns2 = match ro with Some _ => if i then true else bdone ns | None => bdone ns end /\
+  (ro = None -> fin = None) /\
+  (ro <> None -> (fin = None <-> (adone ns2 && bdone ns2)%bool = false)).
+Proof.
+  intros H. destruct ro as [o|].
+  - apply ccd_spec in H. destruct H as (E1 & _ & _ & E4 & E5 & E6 & _ & Ef).
+    rewrite E6. repeat split; auto; try congruence.
+    + intros ->. reflexivity.
+    + apply Ef.
+    + apply Ef.
+  - inv H. repeat split; auto; congruence.
+Qed.
+
+Lemma stop_conc_l tok k a b ns sa sb st' tr r :
+  is_seq k = false -> StopL a -> StopL b -> own_stop ns = false ->
+  live tok (Bin k a b) (ONode ns sa sb) ->
+  stop_conc k a b ns sa sb = (st', tr, r) ->
+  resL true (Bin k a b) st' r /\ tr_stopped (Bin k a b) tr /\
+  (forall id, In id (reach_unseen (Bin k a b) (ONode ns sa sb)) -> In (TLeafStop id) tr).
+Proof.
+  intros Hk Pa Pb Hown HL H. rewrite live_conc in HL by exact Hk.
+  destruct HL as (He & Ho & Ha & Hb & Hd). rewrite Hown in Ha, Hb.
+  unfold reach_unseen. rewrite lv_conc by exact Hk.
+  unfold stop_conc in H.
+  destruct (if bdone ns then (sb, [], None) else stop b sb) as [[sb' trb] rb] eqn:Hbs.
+  destruct (opt_stop_l b _ _ _ _ _ Pb Hb Hbs) as (B1 & B2 & B3 & B4).
+  destruct (match rb with
+            | Some ob => conc_child_done k (ns_set_own (stopped_ns ns) true) true ob
+            | None => (ns_set_own (stopped_ns ns) true, false, None) end) as [[ns2 x] fin1] eqn:Hm.
+  apply opt_ccd in Hm. simpl in Hm. destruct Hm as (M1 & M2 & M3 & M4 & M5 & M6).
+  specialize (M2 eq_refl).
+  destruct fin1 as [o1|].
+  - rewrite finish_some_leaky in H. inv H.
+    assert (Hrb : rb <> None) by (intros E; apply M5 in E; discriminate).
+    destruct (B2 Hrb) as [-> Hbd].
+    destruct rb as [ob|]; [|congruence].
+    assert (Had : adone ns = true).
+    { destruct (M6 Hrb) as [_ M6b]. rewrite M3 in M6b.
+      destruct (adone ns); [reflexivity|]. simpl in M6b. discriminate (M6b eq_refl). }
+    rewrite Had in Ha. simpl in Ha. subst sa.
+    split; [auto with calc|]. split; [rewrite app_nil_r; auto with calc|].
+    intros id Hin. rewrite lv_fin in Hin. simpl in Hin. rewrite app_nil_r. auto.
+  - destruct (if adone ns2 then (sa, [], None) else stop a sa) as [[sa' tra] ra] eqn:Has.
+    rewrite M3 in Has.
+    assert (Ha2 : chld (live false a sa) sa (match rb with Some _ => adone ns | None => adone ns end))
+      by (destruct rb; exact Ha).
+    destruct (opt_stop_l a _ _ _ _ _ Pa Ha2 Has) as (A1 & A2 & A3 & A4).
+    destruct (match ra with
+              | Some oa => conc_child_done k ns2 false oa
+              | None => (ns2, false, None) end) as [[ns3 y] fin2] eqn:Hm2.
+    apply opt_ccd in Hm2. destruct Hm2 as (N1 & N2 & N3 & N4 & N5 & N6).
+    specialize (N2 M2).
+    assert (T : tr_stopped (Bin k a b) (trb ++ tra)) by auto with calc.
+    assert (U : forall id, In id (lv false negb a sa ++ lv false negb b sb) -> In (TLeafStop id) (trb ++ tra)).
+    { intros id Hin. apply in_app_or in Hin. apply in_or_app. destruct Hin; [right; auto|left; auto]. }
+    destruct fin2 as [o2|].
+    + rewrite finish_some_leaky in H. inv H. rewrite app_nil_r. auto with calc.
+    + rewrite finish_none in H. inv H. split; [|auto].
+      apply resL_none. rewrite live_conc by exact Hk.
+      rewrite N1, M1, N2, N3, N4, M3, M4. simpl.
+      split; [reflexivity|]. split; [reflexivity|].
+      assert (Hdd : (adone ns3 && bdone ns3)%bool = false).
+      { destruct ra as [oa|].
+        - apply N6; [discriminate|reflexivity].
+        - rewrite N3, N4. destruct rb as [ob|].
+          + apply M6; [discriminate|reflexivity].
+          + rewrite M3, M4. exact Hd. }
+      rewrite N3, N4, M3, M4 in Hdd.
+      split; [|split; [|exact Hdd]].
+      * destruct ra as [oa|].
+        -- destruct (A2 ltac:(discriminate)) as [-> _]. destruct rb; reflexivity.
+        -- specialize (A1 eq_refl). destruct rb; exact A1.
+      * destruct rb as [ob|].
+        -- destruct (B2 ltac:(discriminate)) as [-> _]. destruct ra; reflexivity.
+        -- specialize (B1 eq_refl). destruct ra; exact B1.
+Qed.
+
+Lemma leafev_conc_l tok k a b ns sa sb id o st' tr r hit :
+  is_seq k = false -> LeafevL a -> LeafevL b -> StopL a -> StopL b ->
+  live tok (Bin k a b) (ONode ns sa sb) ->
+  leafev_conc k a b ns sa sb id o = (st', tr, r, hit) ->
+  resL tok (Bin k a b) st' r /\ (tok = true -> tr_stopped (Bin k a b) tr).
+Proof.
+  intros Hk La Lb Pa Pb HL H. assert (HL0 := HL). rewrite live_conc in HL by exact Hk.
+  destruct HL as (He & Ho & Ha & Hb & Hd). unfold leafev_conc in H.
+  destruct (if adone ns then (sa, [], None, false) else leafev a sa id o) as [[[sa' tra] ra] hita] eqn:Has.
+  destruct hita.
+  - destruct (adone ns) eqn:Had; [inv Has|]. simpl in Ha.
+    destruct (La _ _ _ _ _ _ _ _ Has Ha) as [[L1 L2] T].
+    destruct ra as [oa|].
+    + injection H as H Hhit.
+      destruct (conc_a_done_l tok k a b ns sa' sb tra oa st' tr r Hk Pb He Ho Hb) as [R (trb & -> & T2)]; auto.
+      { apply L2. discriminate. }
+      split; [exact R|]. intros Ht. specialize (T (Ho Ht)). auto with calc.
+    + inv H. split; [|intros Ht; specialize (T (Ho Ht)); auto with calc].
+      apply resL_none. rewrite live_conc by exact Hk. rewrite Had. simpl. auto 6.
+  - destruct (if bdone ns then (sb, [], None, false) else leafev b sb id o) as [[[sb' trb] rb] hitb] eqn:Hbs.
+    destruct (bdone ns) eqn:Hbd.
+    + inv Hbs. inv H. split; [apply resL_none; exact HL0|]. intros _. apply trs_nil.
+    + simpl in Hb. destruct (Lb _ _ _ _ _ _ _ _ Hbs Hb) as [[L1 L2] T].
+      destruct rb as [ob|].
+      * injection H as H Hhit.
+        destruct (conc_b_done_l tok k a b ns sa sb' trb ob st' tr r Hk Pa He Ho Ha) as [R (tra2 & -> & T2)]; auto.
+        { apply L2. discriminate. }
+        split; [exact R|]. intros Ht. specialize (T (Ho Ht)). auto with calc.
+      * inv H. split; [|intros Ht; specialize (T (Ho Ht)); auto with calc].
+        apply resL_none. rewrite live_conc by exact Hk. rewrite Hbd. simpl. auto 6.
+Qed.
+
+Lemma start_stop_l e : StartL e /\ StopL e.
+Proof.
+  induction e as [v|x| |n|i|i|k s IH|k a IHa b IHb].
+  - split; [intros en st tr r H; simpl in H; inv H; auto with calc
+           |intros tok st st' tr r H HL; destruct st; contradiction HL].
+  - split; [intros en st tr r H; simpl in H; inv H; auto with calc
+           |intros tok st st' tr r H HL; destruct st; contradiction HL].
+  - split; [intros en st tr r H; simpl in H; inv H; auto with calc
+           |intros tok st st' tr r H HL; destruct st; contradiction HL].
+  - split; [intros en st tr r H; simpl in H; inv H; auto with calc
+           |intros tok st st' tr r H HL; destruct st; contradiction HL].
+  - split.
+    + intros en st tr r H. simpl in H. destruct (e_stopped en) eqn:Es; inv H.
+      * split; [apply resL_none; simpl; auto|]. intros _ id s sp a b [Hin|[Hin|[]]]; inv Hin. auto.
+      * split; [apply resL_none; simpl; auto|]. discriminate.
+    + intros tok st st' tr r H HL. destruct st as [|c sn|]; try contradiction HL.
+      destruct HL as [-> ->]. destruct tok; simpl in H; inv H.
+      * split; [apply resL_none; simpl; auto|]. split; [apply trs_nil|]. intros id [].
+      * split; [apply resL_none; simpl; auto|]. split; [intros id s sp a b [Hin|[]]; inv Hin|].
+        intros id [<-|[]]. left. reflexivity.
+  - split.
+    + intros en st tr r H. simpl in H. destruct (e_stopped en) eqn:Es; inv H.
+      * split; [auto with calc|]. intros _ id s sp a b [Hin|[Hin|[]]]; inv Hin. auto.
+      * split; [apply resL_none; simpl; auto|]. discriminate.
+    + intros tok st st' tr r H HL. destruct st as [|c sn|]; try contradiction HL.
+      destruct HL as [-> ->]. destruct tok; simpl in H; inv H.
+      * split; [apply resL_none; simpl; auto|]. split; [apply trs_nil|]. intros id [].
+      * split; [auto with calc|]. split; [intros id s sp a b [Hin|[]]; inv Hin|].
+        intros id [<-|[]]. left. reflexivity.
+  - destruct IH as [Ss Ps]. split.
+    + intros en st tr r H. rewrite start_un in H.
+      destruct (start s (un_env k en)) as [[sc tr1] r1] eqn:Hs.
+      destruct (Ss _ _ _ _ Hs) as [[L1 L2] T]. rewrite un_env_stopped in L1, T.
+      assert (T' : e_stopped en = true -> tr_stopped (Un k s) tr1).
+      { intros Hst. destruct (is_unst k) eqn:Hk.
+        - apply trs_unst; [exact Hk|]. intros. eapply start_ids; eassumption.
+        - apply trs_un; auto. }
+      destruct r1 as [o1|].
+      * destruct (un_result k o1) as [tr2 o'] eqn:Hu. inv H. split; [auto with calc|].
+        intros Hst. apply trs_app; auto. apply trs_calls. eapply un_result_calls. eassumption.
+      * inv H. split; [|exact T']. apply resL_none. rewrite live_un. auto.
+    + intros tok st st' tr r H HL. destruct st as [|c sn|ns sc sb]; try contradiction HL.
+      rewrite live_un in HL. destruct HL as [He HL].
+      destruct (is_unst k) eqn:Hk.
+      * apply is_unst_true in Hk. subst k. rewrite stop_un_unst in H. inv H.
+        split; [apply resL_none; rewrite live_un; simpl; split; [discriminate|exact HL]|].
+        split; [apply trs_nil|]. intros id [].
+      * rewrite stop_un in H by exact Hk. unfold stop_un_body in H.
+        destruct (stop s sc) as [[sc' tr1] r1] eqn:Hs.
+        destruct (Ps _ _ _ _ _ Hs HL) as ([L1 L2] & T & U).
+        apply (trs_un k) in T; [|exact Hk].
+        assert (U' : forall id, In id (reach_unseen (Un k s) (ONode ns sc sb)) -> In (TLeafStop id) tr1).
+        { unfold reach_unseen. rewrite lv_un, Hk. exact U. }
+        destruct r1 as [o1|].
+        -- destruct (un_result k o1) as [tr2 o'] eqn:Hu. inv H. split; [auto with calc|].
+           split; [apply trs_app; auto; apply trs_calls; eapply un_result_calls; eassumption|].
+           intros id Hin. apply in_or_app. left. auto.
+        -- inv H. split; [|auto]. apply resL_none. rewrite live_un, Hk. split; [reflexivity|auto].
+  - destruct IHa as [Sa Pa]. destruct IHb as [Sb Pb].
+    destruct (is_seq k) eqn:Hk.
+    + split.
+      * intros en st tr r H. rewrite start_bin_seq in H by exact Hk. unfold start_seq in H.
+        destruct (start a en) as [[sa tra] ra] eqn:Ha.
+        destruct (Sa _ _ _ _ Ha) as [[L1 L2] T].
+        destruct ra as [oa|].
+        -- destruct (seq_next_l (e_stopped en) k a b (mk_nst PFirst en) _ _ _ _ _ Hk Sb eq_refl H) as [R (trb & -> & T2)].
+           split; [exact R|]. intros Hst. auto with calc.
+        -- inv H. split; [|intros Hst; auto with calc]. apply resL_none.
+           rewrite live_seq1 by (auto; reflexivity). auto.
+      * intros tok st st' tr r H HL. destruct st as [|c sn|ns sa sb]; try contradiction HL.
+        rewrite stop_bin, Hk in H. unfold reach_unseen.
+        destruct (ph ns) eqn:Hp.
+        -- rewrite live_seq1 in HL by assumption. destruct HL as [He HL].
+           rewrite lv_seq1 by assumption.
+           unfold stop_seq1 in H. destruct (stop a sa) as [[sa' tra] ra] eqn:Ha.
+           destruct (Pa _ _ _ _ _ Ha HL) as ([L1 L2] & T & U).
+           destruct ra as [oa|].
+           ++ destruct (seq_next_l true k a b (stopped_ns ns) _ _ _ _ _ Hk Sb eq_refl H) as [R (trb & -> & T2)].
+              split; [exact R|]. split; [auto with calc|]. intros id Hin. apply in_or_app. left. auto.
+           ++ inv H. split; [|auto with calc]. apply resL_none.
+              rewrite live_seq1 by (auto; exact Hp). auto.
+        -- assert (Hp' : ph ns <> PFirst) by congruence.
+           rewrite live_seq2 in HL by assumption. destruct HL as [He HL].
+           rewrite lv_seq2 by assumption.
+           unfold stop_seq2 in H. destruct (stop b sb) as [[sb' trb] rb] eqn:Hb.
+           destruct (Pb _ _ _ _ _ Hb HL) as ([L1 L2] & T & U).
+           destruct rb; inv H; (split; [|auto with calc]); [auto with calc|].
+           apply resL_none. rewrite live_seq2 by (auto; exact Hp'). auto.
+        -- assert (Hp' : ph ns <> PFirst) by congruence.
+           rewrite live_seq2 in HL by assumption. destruct HL as [He HL].
+           rewrite lv_seq2 by assumption.
+           unfold stop_seq2 in H. destruct (stop b sb) as [[sb' trb] rb] eqn:Hb.
+           destruct (Pb _ _ _ _ _ Hb HL) as ([L1 L2] & T & U).
+           destruct rb; inv H; (split; [|auto with calc]); [auto with calc|].
+           apply resL_none. rewrite live_seq2 by (auto; exact Hp'). auto.
+    + split.
+      * intros en st tr r H. rewrite start_bin_conc in H by exact Hk.
+        eapply start_conc_l; eauto.
+      * intros tok st st' tr r H HL. destruct st as [|c sn|ns sa sb]; try contradiction HL.
+        rewrite stop_bin, Hk in H.
+        destruct (own_stop ns) eqn:Hown.
+        -- inv H. rewrite live_conc in HL by exact Hk. destruct HL as (He & Ho & Ha & Hb & Hd).
+           rewrite Hown in Ha, Hb.
+           split; [apply resL_none; rewrite live_conc by exact Hk; simpl; rewrite Hown; auto 6|].
+           split; [apply trs_nil|]. unfold reach_unseen. rewrite lv_conc by exact Hk.
+           assert (Ea : lv false negb a sa = []).
+           { destruct (adone ns); simpl in Ha; [subst; apply lv_fin|apply live_true_unseen; exact Ha]. }
+           assert (Eb : lv false negb b sb = []).
+           { destruct (bdone ns); simpl in Hb; [subst; apply lv_fin|apply live_true_unseen; exact Hb]. }
+           rewrite Ea, Eb. intros id [].
+        -- eapply stop_conc_l; eauto.
+Qed.
+
+Lemma leafev_l e : LeafevL e.
+Proof.
+  induction e as [v|x| |n|i|i|k s IH|k a IHa b IHb];
+    try (intros tok st id o st' tr r hit H HL; destruct st; contradiction HL).
+  - intros tok st id o st' tr r hit H HL. destruct st as [|c sn|]; try contradiction HL.
+    assert (HL0 := HL). destruct HL as [-> ->]. simpl in H.
+    destruct (Nat.eqb id i); inv H; auto with calc.
+  - intros tok st id o st' tr r hit H HL. destruct st as [|c sn|]; try contradiction HL.
+    assert (HL0 := HL). destruct HL as [-> ->]. simpl in H.
+    destruct (Nat.eqb id i); inv H; auto with calc.
+  - intros tok st id o st' tr r hit H HL. destruct st as [|c sn|ns sc sb]; try contradiction HL.
+    rewrite live_un in HL. destruct HL as [He HL].
+    rewrite leafev_un in H. unfold leafev_un_body in H.
+    destruct (leafev s sc id o) as [[[sc' tr1] r1] h1] eqn:Hs.
+    destruct (IH _ _ _ _ _ _ _ _ Hs HL) as [[L1 L2] T].
+    assert (T' : tok = true -> tr_stopped (Un k s) tr1).
+    { intros Hst. destruct (is_unst k) eqn:Hk.
+      - apply trs_unst; [exact Hk|]. intros. eapply leafev_ids; eassumption.
+      - apply trs_un; auto. }
+    destruct r1 as [o1|].
+    + destruct (un_result k o1) as [tr2 o'] eqn:Hu. inv H. split; [auto with calc|].
+      intros Hst. apply trs_app; auto. apply trs_calls. eapply un_result_calls. eassumption.
+    + inv H. split; [|exact T']. apply resL_none. rewrite live_un. auto.
+  - destruct (start_stop_l a) as [Sa Pa]. destruct (start_stop_l b) as [Sb Pb].
+    intros tok st id o st' tr r hit H HL. destruct st as [|c sn|ns sa sb]; try contradiction HL.
+    rewrite leafev_bin in H. destruct (is_seq k) eqn:Hk.
+    + destruct (ph ns) eqn:Hp.
+      * rewrite live_seq1 in HL by assumption. destruct HL as [He HL].
+        unfold leafev_seq1 in H. destruct (leafev a sa id o) as [[[sa' tra] ra] h1] eqn:Ha.
+        destruct (IHa _ _ _ _ _ _ _ _ Ha HL) as [[L1 L2] T].
+        destruct ra as [oa|].
+        -- injection H as H Hhit.
+           destruct (seq_next_l tok k a b _ _ _ _ _ _ Hk Sb He H) as [R (trb & -> & T2)].
+           split; [exact R|]. intros Hst. auto with calc.
+        -- inv H. split; [|intros Hst; auto with calc]. apply resL_none.
+           rewrite live_seq1 by (auto; exact Hp). auto.
+      * assert (Hp' : ph ns <> PFirst) by congruence.
+        rewrite live_seq2 in HL by assumption. destruct HL as [He HL].
+        unfold leafev_seq2 in H. destruct (leafev b sb id o) as [[[sb' trb] rb] h1] eqn:Hb.
+        destruct (IHb _ _ _ _ _ _ _ _ Hb HL) as [[L1 L2] T].
+        destruct rb; inv H; (split; [|intros Hst; auto with calc]); [auto with calc|].
+        apply resL_none. rewrite live_seq2 by (auto; exact Hp'). auto.
+      * assert (Hp' : ph ns <> PFirst) by congruence.
+        rewrite live_seq2 in HL by assumption. destruct HL as [He HL].
+        unfold leafev_seq2 in H. destruct (leafev b sb id o) as [[[sb' trb] rb] h1] eqn:Hb.
+        destruct (IHb _ _ _ _ _ _ _ _ Hb HL) as [[L1 L2] T].
+        destruct rb; inv H; (split; [|intros Hst; auto with calc]); [auto with calc|].
+        apply resL_none. rewrite live_seq2 by (auto; exact Hp'). auto.
+    + eapply leafev_conc_l; eauto.
+Qed.
+
+(* ---- A1: what [stop] does, on a live state -------------------------------------------------------- *)
+Lemma reach_split e st id : In id (reach e st) -> In id (reach_unseen e st) \/ In id (reach_seen e st).
+Proof.
+  intros H. apply (lv_split false (fun s => s)) in H. destruct H; [right|left]; assumption.
+Qed.
+
+Theorem stop_reaches e tok st st' tr r :
+  live tok e st -> stop e st = (st', tr, r) ->
+  (forall id, In id (reach e st) -> In (TLeafStop id) tr \/ In id (reach_seen e st)) /\
+  (forall id, In id (reach e st') -> In id (reach_seen e st')) /\
+  (r = None -> live true e st') /\ (r <> None -> st' = OFin).
+Proof.
+  intros HL H. destruct (start_stop_l e) as [_ P].
+  destruct (P _ _ _ _ _ H HL) as ([L1 L2] & _ & U).
+  split; [|split; [|split; assumption]].
+  - intros id Hin. apply reach_split in Hin. destruct Hin; auto.
+  - intros id Hin. destruct r as [o|].
+    + rewrite L2 in Hin by discriminate. unfold reach in Hin. rewrite lv_fin in Hin. contradiction.
+    + apply reach_split in Hin. destruct Hin as [Hin|Hin]; [|exact Hin].
+      rewrite (live_true_unseen e st' (L1 eq_refl)) in Hin. contradiction.
+Qed.
+
+(* no stop callback runs for a leaf that is not a running, connected leaf that has not seen stop yet,
+   unless that leaf was started in the same call (a successor started with a stopped token) *)
+Definition StopT (e : sexpr) : Prop := forall id st st' tr r,
+  stop e st = (st', tr, r) -> In (TLeafStop id) tr -> In id (reach_unseen e st) \/ 1 <= cstart id tr.
+
+Lemma calls_no_stop id tr : Forall is_call tr -> ~ In (TLeafStop id) tr.
+Proof. intros H Hin. rewrite Forall_forall in H. exact (H _ Hin). Qed.
+
+Lemma seq_next_t id k (a : sexpr) b ns tra oa st tr r :
+  is_seq k = true -> seq_next k b ns tra oa = (st, tr, r) ->
+  In (TLeafStop id) tr -> In (TLeafStop id) tra \/ 1 <= cstart id tr.
+Proof.
+  intros Hk H Hin. destruct (start_stop_c b) as [Sb _].
+  destruct (seq_next_c id k a b _ _ _ _ _ _ Hk Sb H) as (trb & -> & C1 & _).
+  apply in_app_or in Hin. destruct Hin as [Hin|Hin]; [auto|].
+  right. apply stop_in_cstop in Hin. rewrite cstart_app. lia.
+Qed.
+
+Lemma stop_conc_tr k a b ns sa sb st' tr r :
+  stop_conc k a b ns sa sb = (st', tr, r) ->
+  exists trb tra, tr = trb ++ tra /\
+    (trb = [] \/ exists sb' rb, stop b sb = (sb', trb, rb)) /\
+    (tra = [] \/ exists sa' ra, stop a sa = (sa', tra, ra)).
+Proof.
+  intros H. unfold stop_conc in H.
+  destruct (if bdone ns then (sb, [], None) else stop b sb) as [[sb' trb] rb] eqn:Hbs.
+  assert (B : trb = [] \/ exists sb' rb, stop b sb = (sb', trb, rb)).
+  { destruct (bdone ns); [inv Hbs; auto|eauto]. }
+  destruct (match rb with
+            | Some ob => conc_child_done k (ns_set_own (stopped_ns ns) true) true ob
+            | None => (ns_set_own (stopped_ns ns) true, false, None) end) as [[ns2 x] fin1].
+  destruct fin1 as [o1|].
+  - rewrite finish_some_leaky in H. inv H. exists trb, []. auto.
+  - destruct (if adone ns2 then (sa, [], None) else stop a sa) as [[sa' tra] ra] eqn:Has.
+    assert (A : tra = [] \/ exists sa' ra, stop a sa = (sa', tra, ra)).
+    { destruct (adone ns2); [inv Has; auto|eauto]. }
+    destruct (match ra with
+              | Some oa => conc_child_done k ns2 false oa
+              | None => (ns2, false, None) end) as [[ns3 y] fin2].
+    exists trb, tra. split; [|auto].
+    destruct fin2; [rewrite finish_some_leaky in H; inv H; apply app_nil_r|rewrite finish_none in H; inv H; reflexivity].
+Qed.
+
+Lemma stop_t e : StopT e.
+Proof.
+  induction e as [v|x| |n|i|i|k s IH|k a IHa b IHb];
+    try (intros id st st' tr r H Hin; destruct st; simpl in H; inv H; contradiction Hin).
+  - intros id st st' tr r H Hin. destruct st as [|c sn|]; simpl in H; try (inv H; contradiction Hin).
+    destruct c, sn; inv H; try contradiction Hin. destruct Hin as [Hin|[]]. inv Hin. left. left. reflexivity.
+  - intros id st st' tr r H Hin. destruct st as [|c sn|]; simpl in H; try (inv H; contradiction Hin).
+    destruct c, sn; inv H; try contradiction Hin. destruct Hin as [Hin|[]]. inv Hin. left. left. reflexivity.
+  - intros id st st' tr r H Hin.
+    destruct st as [|c sn|ns sc sb]; [rewrite stop_fin in H; inv H; contradiction Hin|simpl in H; inv H; contradiction Hin|].
+    destruct (is_unst k) eqn:Hk.
+    + apply is_unst_true in Hk. subst k. rewrite stop_un_unst in H. inv H. contradiction Hin.
+    + rewrite stop_un in H by exact Hk. unfold stop_un_body in H. unfold reach_unseen. rewrite lv_un, Hk. simpl.
+      destruct (stop s sc) as [[sc' tr1] r1] eqn:Hs.
+      destruct r1 as [o1|].
+      * destruct (un_result k o1) as [tr2 o'] eqn:Hu. inv H. apply un_result_calls in Hu.
+        apply in_app_or in Hin. destruct Hin as [Hin|Hin]; [|exfalso; eapply calls_no_stop; eassumption].
+        destruct (IH _ _ _ _ _ Hs Hin); [auto|]. right. rewrite cstart_app. lia.
+      * inv H. eauto.
+  - intros id st st' tr r H Hin.
+    destruct st as [|c sn|ns sa sb]; [rewrite stop_fin in H; inv H; contradiction Hin|simpl in H; inv H; contradiction Hin|].
+    rewrite stop_bin in H. unfold reach_unseen. destruct (is_seq k) eqn:Hk.
+    + destruct (ph ns) eqn:Hp.
+      * rewrite lv_seq1 by assumption. unfold stop_seq1 in H.
+        destruct (stop a sa) as [[sa' tra] ra] eqn:Ha.
+        destruct ra as [oa|].
+        -- destruct (seq_next_t id k a b _ _ _ _ _ _ Hk H Hin) as [Hin'|Hc]; [|auto].
+           destruct (IHa _ _ _ _ _ Ha Hin'); [auto|]. right.
+           destruct (start_stop_c b) as [Sb _].
+           destruct (seq_next_c id k a b _ _ _ _ _ _ Hk Sb H) as (trb & -> & _).
+           rewrite cstart_app. lia.
+        -- inv H. eauto.
+      * rewrite lv_seq2 by (auto; congruence). unfold stop_seq2 in H.
+        destruct (stop b sb) as [[sb' trb] rb] eqn:Hb. destruct rb; inv H; eauto.
+      * rewrite lv_seq2 by (auto; congruence). unfold stop_seq2 in H.
+        destruct (stop b sb) as [[sb' trb] rb] eqn:Hb. destruct rb; inv H; eauto.
+    + destruct (own_stop ns); [inv H; contradiction Hin|].
+      rewrite lv_conc by exact Hk.
+      apply stop_conc_tr in H. destruct H as (trb & tra & -> & B & A).
+      apply in_app_or in Hin. rewrite cstart_app, in_app_iff. destruct Hin as [Hin|Hin].
+      * destruct B as [->|(sb' & rb & Hb)]; [contradiction Hin|].
+        destruct (IHb _ _ _ _ _ Hb Hin); [auto|right; lia].
+      * destruct A as [->|(sa' & ra & Ha)]; [contradiction Hin|].
+        destruct (IHa _ _ _ _ _ Ha Hin); [auto|right; lia].
+Qed.
+
+Theorem stop_only_reach e id st st' tr r :
+  stop e st = (st', tr, r) -> In (TLeafStop id) tr ->
+  In id (reach_unseen e st) \/ exists s sp a b, In (TLeafStart id s sp a b) tr.
+Proof.
+  intros H Hin. destruct (stop_t e _ _ _ _ _ H Hin) as [Hr|Hc]; [auto|].
+  right. apply cstart_in. exact Hc.
+Qed.
+
+(* ---- A5: stop starts and completes nothing unless a stop-reactive leaf is reached ---------------- *)
+Fixpoint reactive (e : sexpr) (st : ost) : list nat :=
+  match e, st with
+  | LeafN id, OLeaf false false => [id]
+  | Un k s, ONode _ sc _ => if is_unst k then [] else reactive s sc
+  | Bin k a b, ONode ns sa sb =>
+      if is_seq k then
+        match ph ns with PFirst => reactive a sa | _ => reactive b sb end
+      else reactive a sa ++ reactive b sb
+  | _, _ => []
+  end.
+Definition is_stop_ev (t : tev) : Prop := exists id, t = TLeafStop id.
+
+Lemma stop_inert e : forall st st' tr r,
+  stop e st = (st', tr, r) -> reactive e st = [] -> r = None /\ Forall is_stop_ev tr.
+Proof.
+  induction e as [v|x| |n|i|i|k s IH|k a IHa b IHb];
+    try (intros st st' tr r H Hr; destruct st; simpl in H; inv H; auto; fail).
+  - intros st st' tr r H Hr. destruct st as [|c sn|]; simpl in H; try (inv H; auto; fail).
+    destruct c, sn; inv H; auto. split; [reflexivity|]. repeat constructor. exists i. reflexivity.
+  - intros st st' tr r H Hr. destruct st as [|c sn|]; simpl in H; try (inv H; auto; fail).
+    destruct c, sn; inv H; auto. discriminate Hr.
+  - intros st st' tr r H Hr.
+    destruct st as [|c sn|ns sc sb]; [rewrite stop_fin in H; inv H; auto|simpl in H; inv H; auto|].
+    destruct (is_unst k) eqn:Hk.
+    + apply is_unst_true in Hk. subst k. rewrite stop_un_unst in H. inv H. auto.
+    + rewrite stop_un in H by exact Hk. unfold stop_un_body in H. simpl in Hr. rewrite Hk in Hr.
+      destruct (stop s sc) as [[sc' tr1] r1] eqn:Hs. destruct (IH _ _ _ _ Hs Hr) as [-> F]. inv H. auto.
+  - intros st st' tr r H Hr.
+    destruct st as [|c sn|ns sa sb]; [rewrite stop_fin in H; inv H; auto|simpl in H; inv H; auto|].
+    rewrite stop_bin in H. simpl in Hr. destruct (is_seq k) eqn:Hk.
+    + destruct (ph ns) eqn:Hp.
+      * unfold stop_seq1 in H. destruct (stop a sa) as [[sa' tra] ra] eqn:Ha.
+        destruct (IHa _ _ _ _ Ha Hr) as [-> F]. inv H. auto.
+      * unfold stop_seq2 in H. destruct (stop b sb) as [[sb' trb] rb] eqn:Hb.
+        destruct (IHb _ _ _ _ Hb Hr) as [-> F]. inv H. auto.
+      * unfold stop_seq2 in H. destruct (stop b sb) as [[sb' trb] rb] eqn:Hb.
+        destruct (IHb _ _ _ _ Hb Hr) as [-> F]. inv H. auto.
+    + destruct (own_stop ns); [inv H; auto|].
+      apply app_eq_nil in Hr. destruct Hr as [Hra Hrb].
+      unfold stop_conc in H.
+      destruct (if bdone ns then (sb, [], None) else stop b sb) as [[sb' trb] rb] eqn:Hbs.
+      assert (B : rb = None /\ Forall is_stop_ev trb).
+      { destruct (bdone ns); [inv Hbs; auto|eauto]. }
+      destruct B as [-> Fb].
+      destruct (if adone (ns_set_own (stopped_ns ns) true) then (sa, [], None) else stop a sa)
+        as [[sa' tra] ra] eqn:Has.
+      assert (A : ra = None /\ Forall is_stop_ev tra).
+      { destruct (adone (ns_set_own (stopped_ns ns) true)); [inv Has; auto|eauto]. }
+      destruct A as [-> Fa]. rewrite finish_none in H. inv H. split; [reflexivity|].
+      apply Forall_app. auto.
+Qed.
+
+(* ================================================================================================ *)
+(* Part 3: A3 - losers are stopped                                                                  *)
+(* ================================================================================================ *)
+Definition loser_cond (k : bkind) (o : outcome) : Prop :=
+  k = BStopWhen \/ (k = BWhenAll /\ forall v, o <> OVal v).
+
+Theorem losers_stopped_a k a b ns sa sb id o sa' tra oa st' tr r hit tok :
+  is_seq k = false ->
+  live tok (Bin k a b) (ONode ns sa sb) ->
+  adone ns = false -> leafev a sa id o = (sa', tra, Some oa, true) ->   (* the event completes child a *)
+  loser_cond k oa -> own_stop ns = false -> bdone ns = false ->      (* b running, not yet told *)
+  leafev (Bin k a b) (ONode ns sa sb) id o = (st', tr, r, hit) ->
+  forall id', In id' (reach_unseen b sb) -> In (TLeafStop id') tr.
+Proof.
+  intros Hk HL Had Ha Hl Hown Hbd H id' Hin.
+  rewrite live_conc in HL by exact Hk. destruct HL as (_ & _ & _ & Lb & _).
+  rewrite Hbd, Hown in Lb. simpl in Lb.
+  rewrite leafev_bin, Hk in H. unfold leafev_conc in H. rewrite Had, Ha in H.
+  injection H as H _. unfold conc_a_done in H.
+  destruct (ccd_newly k ns false oa Hown Hl) as (ns1 & fin & Hc). rewrite Hc in H.
+  apply ccd_spec in Hc. destruct Hc as (_ & _ & _ & E4 & E5 & _ & _ & Ef).
+  assert (fin = None) by (apply Ef; rewrite E4, E5, Hbd; reflexivity). subst fin.
+  destruct (stop b sb) as [[sb' trb] rb] eqn:Hs.
+  destruct (start_stop_l b) as [_ Pb]. destruct (Pb _ _ _ _ _ Hs Lb) as (_ & _ & U).
+  specialize (U _ Hin).
+  destruct rb as [ob|].
+  - destruct (conc_child_done k ns1 true ob) as [[ns2 x] fin2].
+    apply finish_cases2 in H; [|reflexivity].
+    destruct H as [(? & _ & _ & -> & _)|(_ & _ & -> & _)]; apply in_or_app; auto.
+  - inv H. apply in_or_app. auto.
+Qed.
+
+Theorem losers_stopped_b k a b ns sa sb id o sb' trb ob st' tr r hit tok :
+  is_seq k = false ->
+  live tok (Bin k a b) (ONode ns sa sb) ->
+  (adone ns = false -> snd (leafev a sa id o) = false) ->             (* the event is not for a *)
+  bdone ns = false -> leafev b sb id o = (sb', trb, Some ob, true) ->  (* it completes child b *)
+  loser_cond k ob -> own_stop ns = false -> adone ns = false ->
+  leafev (Bin k a b) (ONode ns sa sb) id o = (st', tr, r, hit) ->
+  forall id', In id' (reach_unseen a sa) -> In (TLeafStop id') tr.
+Proof.
+  intros Hk HL Hmiss Hbd Hb Hl Hown Had H id' Hin.
+  rewrite live_conc in HL by exact Hk. destruct HL as (_ & _ & La & _ & _).
+  rewrite Had, Hown in La. simpl in La. specialize (Hmiss Had).
+  rewrite leafev_bin, Hk in H. unfold leafev_conc in H. rewrite Had in H.
+  destruct (leafev a sa id o) as [[[sa1 tra1] ra1] hita]. simpl in Hmiss. subst hita.
+  rewrite Hbd, Hb in H.
+  injection H as H _. unfold conc_b_done in H.
+  destruct (ccd_newly k ns true ob Hown Hl) as (ns1 & fin & Hc). rewrite Hc in H.
+  apply ccd_spec in Hc. destruct Hc as (_ & _ & _ & E4 & E5 & _ & _ & Ef).
+  assert (fin = None) by (apply Ef; rewrite E4, E5, Had; reflexivity). subst fin.
+  destruct (stop a sa) as [[sa' tra] ra] eqn:Hs.
+  destruct (start_stop_l a) as [_ Pa]. destruct (Pa _ _ _ _ _ Hs La) as (_ & _ & U).
+  specialize (U _ Hin).
+  destruct ra as [oa|].
+  - destruct (conc_child_done k ns1 false oa) as [[ns2 x] fin2].
+    apply finish_cases2 in H; [|reflexivity].
+    destruct H as [(? & _ & _ & -> & _)|(_ & _ & -> & _)]; apply in_or_app; auto.
+  - inv H. apply in_or_app. auto.
+Qed.
+
+(* ================================================================================================ *)
+(* Part 4: whole runs                                                                               *)
+(* ================================================================================================ *)
+Definition tevs (xs : list xev) : list tev :=
+  flat_map (fun x => match x with XT t => [t] | _ => [] end) xs.
+Lemma tevs_app l1 l2 : tevs (l1 ++ l2) = tevs l1 ++ tevs l2.
+Proof. apply flat_map_app. Qed.
+Lemma tevs_map tr : tevs (map XT tr) = tr.
+Proof. induction tr; simpl; congruence. Qed.
+Lemma tevs_in t xs : In t (tevs xs) <-> In (XT t) xs.
+Proof.
+  unfold tevs. rewrite in_flat_map. split.
+  - intros (x & Hx & Ht). destruct x; simpl in Ht; try contradiction. destruct Ht as [->|[]]. exact Hx.
+  - intros H. exists (XT t). split; [exact H|left; reflexivity].
+Qed.
+
+Definition not_xt (x : xev) : Prop := match x with XT _ => False | _ => True end.
+Definition liftx (Q : tev -> Prop) (x : xev) : Prop := match x with XT t => Q t | _ => True end.
+Lemma liftx_delta Q tr extra : Forall Q tr -> Forall not_xt extra -> Forall (liftx Q) (map XT tr ++ extra).
+Proof.
+  intros H1 H2. apply Forall_app. split.
+  - induction H1; simpl; constructor; auto.
+  - eapply Forall_impl; [|exact H2]. intros x. destruct x; simpl; tauto.
+Qed.
+Lemma tevs_extra extra : Forall not_xt extra -> tevs extra = [].
+Proof. induction 1 as [|x l Hx _ IH]; simpl; [reflexivity|]. destruct x; simpl in *; tauto. Qed.
+
+(* one script entry: what it calls and what it appends *)
+Inductive step_kind (e : sexpr) (rs rs' : run_state) (st : ost) (tr : list tev) (o : option outcome) : Prop :=
+| SK_leaf id ov : leafev e (r_st rs) id ov = (st, tr, o, true) -> r_stopped rs' = r_stopped rs ->
+                  step_kind e rs rs' st tr o
+| SK_stop : r_stopped rs = false -> stop e (r_st rs) = (st, tr, o) -> r_stopped rs' = true ->
+            step_kind e rs rs' st tr o
+| SK_skip : st = r_st rs -> tr = [] -> o = None -> (r_stopped rs = true -> r_stopped rs' = true) ->
+            (r_stopped rs' = true -> r_stopped rs = true) -> step_kind e rs rs' st tr o.
+
+Lemma absorb_delta rs st tr o :
+  exists extra, r_st (absorb rs (st, tr, o)) = st /\ r_stopped (absorb rs (st, tr, o)) = r_stopped rs /\
+    r_tr (absorb rs (st, tr, o)) = r_tr rs ++ map XT tr ++ extra /\ Forall not_xt extra.
+Proof.
+  unfold absorb. destruct o as [oc|]; simpl.
+  - eexists. split; [reflexivity|]. split; [reflexivity|]. split; [rewrite <- app_assoc; reflexivity|].
+    repeat constructor.
+  - exists []. rewrite app_nil_r. repeat split; constructor.
+Qed.
+
+Lemma run_ev_delta e rs ev :
+  exists st tr o extra,
+    r_st (run_ev e rs ev) = st /\
+    r_tr (run_ev e rs ev) = r_tr rs ++ map XT tr ++ extra /\ Forall not_xt extra /\
+    step_kind e rs (run_ev e rs ev) st tr o /\
+    (o = None \/ st = OFin -> True).
+Proof.
+  destruct ev as [id ov|]; simpl.
+  - destruct (leafev e (r_st rs) id ov) as [[[st tr] o] hit] eqn:H. destruct hit.
+    + destruct (absorb_delta rs st tr o) as (extra & A1 & A2 & A3 & A4).
+      exists st, tr, o, extra. repeat split; auto. eapply SK_leaf; eauto.
+    + exists (r_st rs), [], None, [XSkip]. simpl. repeat split; auto; [repeat constructor|].
+      apply SK_skip; auto.
+  - destruct (r_stopped rs) eqn:Hs.
+    + exists (r_st rs), [], None, [XSkip]. simpl. repeat split; auto; [repeat constructor|].
+      apply SK_skip; auto.
+    + destruct (stop e (r_st rs)) as [[st tr] o] eqn:H.
+      destruct (absorb_delta {| r_st := r_st rs; r_stopped := true; r_roots := r_roots rs; r_tr := r_tr rs |} st tr o)
+        as (extra & A1 & A2 & A3 & A4).
+      exists st, tr, o, extra. repeat split; auto. apply SK_stop; auto.
+Qed.
+
+(* suffixes of runs *)
+Lemma fold_suffix e (J : run_state -> Prop) (Q : tev -> Prop) :
+  (forall rs ev, J rs -> J (run_ev e rs ev) /\
+                 exists d, r_tr (run_ev e rs ev) = r_tr rs ++ d /\ Forall (liftx Q) d) ->
+  forall s2 rs, J rs ->
+    J (fold_left (run_ev e) s2 rs) /\
+    exists d, r_tr (fold_left (run_ev e) s2 rs) = r_tr rs ++ d /\ Forall (liftx Q) d.
+Proof.
+  intros Hstep. induction s2 as [|ev s2 IH]; intros rs HJ; simpl.
+  - split; [exact HJ|]. exists []. rewrite app_nil_r. auto.
+  - destruct (Hstep rs ev HJ) as [HJ' (d1 & E1 & F1)].
+    destruct (IH _ HJ') as [HJ'' (d2 & E2 & F2)].
+    split; [exact HJ''|]. exists (d1 ++ d2). rewrite E2, E1, app_assoc. split; [reflexivity|].
+    apply Forall_app. auto.
+Qed.
+
+(* ---- reachable states are well-formed and live ------------------------------------------------------ *)
+Definition IL (e : sexpr) (rs : run_state) : Prop :=
+  r_st rs = OFin \/ live (r_stopped rs) e (r_st rs).
+
+Lemma resL_IL tok e st o : resL tok e st o -> st = OFin \/ live tok e st.
+Proof. intros [L1 L2]. destruct o; [left; apply L2; discriminate|right; auto]. Qed.
+
+Lemma run_start_l e pre : IL e (run_start e pre).
+Proof.
+  unfold run_start, IL. destruct (start e (root_env pre)) as [[st tr] o] eqn:H.
+  destruct (start_stop_l e) as [S _]. destruct (S _ _ _ _ H) as [R _].
+  destruct (absorb_delta {| r_st := OFin; r_stopped := pre; r_roots := 0; r_tr := [] |} st tr o)
+    as (extra & A1 & A2 & _). rewrite A1, A2. simpl. eapply resL_IL. exact R.
+Qed.
+
+Lemma run_ev_l e rs ev : IL e rs -> IL e (run_ev e rs ev).
+Proof.
+  intros HI. destruct (run_ev_delta e rs ev) as (st & tr & o & extra & E1 & _ & _ & K & _).
+  unfold IL. rewrite E1. destruct K as [id ov H Hs|Hs H Hs' | -> _ _ Hs1 Hs2].
+  - rewrite Hs. destruct HI as [HI|HI].
+    + rewrite HI, leafev_fin in H. discriminate.
+    + destruct (leafev_l e _ _ _ _ _ _ _ _ H HI) as [R _]. eapply resL_IL. exact R.
+  - rewrite Hs'. destruct HI as [HI|HI].
+    + rewrite HI, stop_fin in H. inv H. auto.
+    + destruct (start_stop_l e) as [_ P]. destruct (P _ _ _ _ _ H HI) as (R & _). eapply resL_IL. exact R.
+  - destruct HI as [HI|HI]; [auto|]. right.
+    destruct (r_stopped rs) eqn:E1'.
+    + rewrite (Hs1 eq_refl). exact HI.
+    + destruct (r_stopped (run_ev e rs ev)); [discriminate (Hs2 eq_refl)|exact HI].
+Qed.
+
+Theorem exec_live e pre script :
+  r_st (exec e pre script) = OFin \/ live (r_stopped (exec e pre script)) e (r_st (exec e pre script)).
+Proof. apply (exec_invariant e pre (IL e)); [apply run_start_l|intros; apply run_ev_l; assumption]. Qed.
+
+(* ---- A1 (counting): stop callbacks at most once per leaf, leaves start at most once -------------- *)
+Definition IC (e : sexpr) (id : nat) (rs : run_state) : Prop :=
+  cstop id (tevs (r_tr rs)) + nun id e (r_st rs) <= cstart id (tevs (r_tr rs)) /\
+  cstart id (tevs (r_tr rs)) + avail id e (r_st rs) <= occ id e /\
+  nrun id e (r_st rs) <= cstart id (tevs (r_tr rs)).
+
+Lemma run_start_c e pre id : IC e id (run_start e pre).
+Proof.
+  unfold run_start, IC. destruct (start e (root_env pre)) as [[st tr] o] eqn:H.
+  destruct (start_stop_c e) as [S _]. specialize (S id _ _ _ _ H).
+  destruct (absorb_delta {| r_st := OFin; r_stopped := pre; r_roots := 0; r_tr := [] |} st tr o)
+    as (extra & A1 & A2 & A3 & A4). rewrite A1, A3. simpl.
+  rewrite tevs_app, tevs_map, (tevs_extra _ A4), app_nil_r. cn. lia.
+Qed.
+
+Lemma run_ev_c e rs ev id : IC e id rs -> IC e id (run_ev e rs ev).
+Proof.
+  intros HI. destruct (run_ev_delta e rs ev) as (st & tr & o & extra & E1 & E2 & E3 & K & _).
+  unfold IC in *. rewrite E1, E2, !tevs_app, tevs_map, (tevs_extra _ E3), app_nil_r.
+  destruct K as [i ov H Hs|Hs H Hs' | -> -> _ _ _].
+  - destruct (leafev_c e id _ _ _ _ _ _ _ H) as [C _]. cn. lia.
+  - destruct (start_stop_c e) as [_ P]. specialize (P id _ _ _ _ H). cn. lia.
+  - rewrite app_nil_r. exact HI.
+Qed.
+
+Theorem stop_at_most_once e pre script id :
+  NoDup (leaf_ids e) ->
+  cstop id (tevs (r_tr (exec e pre script))) <= cstart id (tevs (r_tr (exec e pre script))) /\
+  cstart id (tevs (r_tr (exec e pre script))) <= 1.
+Proof.
+  intros ND.
+  assert (H : IC e id (exec e pre script)).
+  { apply (exec_invariant e pre (IC e id)); [apply run_start_c|intros; apply run_ev_c; assumption]. }
+  destruct H as (H1 & H2 & _). pose proof (occ_nodup id e ND). lia.
+Qed.
+
+(* after leaf id was completed from outside, nothing about that leaf happens any more *)
+Definition about (id : nat) (t : tev) : Prop :=
+  match t with
+  | TLeafStart i _ _ _ _ => i <> id
+  | TLeafStop i => i <> id
+  | _ => True
+  end.
+Definition dead (e : sexpr) (id : nat) (rs : run_state) : Prop :=
+  avail id e (r_st rs) = 0 /\ nrun id e (r_st rs) = 0.
+
+Lemma zero_counts_about id tr : cstart id tr = 0 -> cstop id tr = 0 -> Forall (about id) tr.
+Proof.
+  intros H1 H2. apply Forall_forall. intros t Hin. destruct t; simpl; auto.
+  - intros ->. apply start_in_cstart in Hin. lia.
+  - intros ->. apply stop_in_cstop in Hin. lia.
+Qed.
+
+Lemma dead_step e id rs ev :
+  dead e id rs ->
+  dead e id (run_ev e rs ev) /\
+  exists d, r_tr (run_ev e rs ev) = r_tr rs ++ d /\ Forall (liftx (about id)) d.
+Proof.
+  intros [D1 D2]. destruct (run_ev_delta e rs ev) as (st & tr & o & extra & E1 & E2 & E3 & K & _).
+  unfold dead. rewrite E1.
+  assert (C : cineq id e st tr (nun id e (r_st rs)) (nrun id e (r_st rs)) (avail id e (r_st rs))).
+  { destruct K as [i ov H Hs|Hs H Hs' | -> -> _ _ _].
+    - destruct (leafev_c e id _ _ _ _ _ _ _ H) as [C _]. exact C.
+    - destruct (start_stop_c e) as [_ P]. exact (P id _ _ _ _ H).
+    - cn. lia. }
+  pose proof (nun_le_nrun id e (r_st rs)). cn.
+  split; [lia|]. eexists. split; [exact E2|]. apply liftx_delta; [|exact E3].
+  apply zero_counts_about; lia.
+Qed.
+
+Theorem no_event_after_completion e pre s1 s2 id o :
+  NoDup (leaf_ids e) ->
+  snd (leafev e (r_st (exec e pre s1)) id o) = true ->      (* the completion applies *)
+  exists d, r_tr (exec e pre (s1 ++ EvLeaf id o :: s2)) = r_tr (exec e pre (s1 ++ [EvLeaf id o])) ++ d /\
+            Forall (liftx (about id)) d.
+Proof.
+  intros ND Hhit.
+  assert (HC : IC e id (exec e pre s1)).
+  { apply (exec_invariant e pre (IC e id)); [apply run_start_c|intros; apply run_ev_c; assumption]. }
+  assert (HD : dead e id (exec e pre (s1 ++ [EvLeaf id o]))).
+  { rewrite exec_snoc. set (rs := exec e pre s1) in *. simpl.
+    destruct (leafev e (r_st rs) id o) as [[[st tr] r] hit] eqn:H. simpl in Hhit. subst hit.
+    destruct (absorb_delta rs st tr r) as (extra & A1 & _). unfold dead. rewrite A1.
+    destruct (leafev_c e id _ _ _ _ _ _ _ H) as [C C']. specialize (C' eq_refl).
+    destruct HC as (H1 & H2 & H3). pose proof (occ_nodup id e ND). cn. lia. }
+  replace (s1 ++ EvLeaf id o :: s2) with ((s1 ++ [EvLeaf id o]) ++ s2) by (rewrite <- app_assoc; reflexivity).
+  rewrite exec_app.
+  destruct (fold_suffix e (dead e id) (about id) (fun rs ev => dead_step e id rs ev) s2 _ HD) as [_ R].
+  exact R.
+Qed.
+
+(* ---- A1 on reachable states -------------------------------------------------------------------------- *)
+Theorem run_stop_reaches e pre s1 st' tr r :
+  stop e (r_st (exec e pre s1)) = (st', tr, r) ->
+  (forall id, In id (reach e (r_st (exec e pre s1))) ->
+              In (TLeafStop id) tr \/ In id (reach_seen e (r_st (exec e pre s1)))) /\
+  (forall id, In id (reach e st') -> In id (reach_seen e st')) /\
+  (forall id, In (TLeafStop id) tr ->
+              In id (reach_unseen e (r_st (exec e pre s1))) \/ exists s sp a b, In (TLeafStart id s sp a b) tr) /\
+  (r = None -> st' = OFin \/ running_leaves e st' <> []) /\ (r <> None -> st' = OFin).
+Proof.
+  intros H. split; [|split; [|split]].
+  - destruct (exec_live e pre s1) as [E|HL].
+    + rewrite E. unfold reach. rewrite lv_fin. intros id [].
+    + destruct (stop_reaches _ _ _ _ _ _ HL H) as (A & _). exact A.
+  - destruct (exec_live e pre s1) as [E|HL].
+    + rewrite E, stop_fin in H. inv H. unfold reach. rewrite lv_fin. intros id [].
+    + destruct (stop_reaches _ _ _ _ _ _ HL H) as (_ & A & _). exact A.
+  - intros id Hin. eapply stop_only_reach; eassumption.
+  - destruct (exec_live e pre s1) as [E|HL].
+    + rewrite E, stop_fin in H. inv H. split; [auto|congruence].
+    + destruct (stop_reaches _ _ _ _ _ _ HL H) as (_ & _ & A & B). split; [|exact B].
+      intros Hr. right. eapply live_running. exact (A Hr).
+Qed.
+
+(* ---- A5 ------------------------------------------------------------------------------------------------ *)
+Theorem stop_prompt e tok st st' tr r :
+  live tok e st -> stop e st = (st', tr, r) ->
+  (r = None -> running_leaves e st' <> []) /\
+  (r <> None -> st' = OFin /\ running_leaves e st' = []).
+Proof.
+  intros HL H. destruct (stop_reaches _ _ _ _ _ _ HL H) as (_ & _ & A & B). split.
+  - intros Hr. eapply live_running. exact (A Hr).
+  - intros Hr. rewrite (B Hr). split; [reflexivity|]. unfold running_leaves. apply lv_fin.
+Qed.
+
+(* ---- A2: leaves started after the stop request start stopped ---------------------------------------- *)
+Definition sees_stop (e : sexpr) (t : tev) : Prop :=
+  match t with
+  | TLeafStart id s _ _ _ => s = true \/ In id (under_unst e)
+  | _ => True
+  end.
+Lemma trs_forall e tr : tr_stopped e tr -> Forall (sees_stop e) tr.
+Proof.
+  intros H. apply Forall_forall. intros t Hin. destruct t; simpl; auto. eapply H. exact Hin.
+Qed.
+
+Definition JS (e : sexpr) (rs : run_state) : Prop := IL e rs /\ r_stopped rs = true.
+
+Lemma stopped_step e rs ev :
+  JS e rs ->
+  JS e (run_ev e rs ev) /\
+  exists d, r_tr (run_ev e rs ev) = r_tr rs ++ d /\ Forall (liftx (sees_stop e)) d.
+Proof.
+  intros [HI Hs]. split; [split; [apply run_ev_l; exact HI|]|].
+  - destruct (run_ev_delta e rs ev) as (st & tr & o & extra & _ & _ & _ & K & _).
+    destruct K as [i ov H Hs'|Hs' H Hs''|_ _ _ Hs1 _]; [congruence|congruence|auto].
+  - destruct (run_ev_delta e rs ev) as (st & tr & o & extra & E1 & E2 & E3 & K & _).
+    eexists. split; [exact E2|]. apply liftx_delta; [|exact E3].
+    destruct K as [i ov H Hs'|Hs' H Hs''| _ -> _ _ _]; [|congruence|constructor].
+    destruct HI as [HI|HI]; [rewrite HI, leafev_fin in H; discriminate|].
+    destruct (leafev_l e _ _ _ _ _ _ _ _ H HI) as [_ T]. apply trs_forall. exact (T Hs).
+Qed.
+
+Lemma stop_step e rs :
+  IL e rs ->
+  JS e (run_ev e rs EvStop) /\
+  exists d, r_tr (run_ev e rs EvStop) = r_tr rs ++ d /\ Forall (liftx (sees_stop e)) d.
+Proof.
+  intros HI. destruct (r_stopped rs) eqn:Hs.
+  - apply stopped_step. split; assumption.
+  - split; [split; [apply run_ev_l; exact HI|]|]; simpl; rewrite Hs.
+    + destruct (stop e (r_st rs)) as [[st tr] o].
+      destruct (absorb_delta {| r_st := r_st rs; r_stopped := true; r_roots := r_roots rs; r_tr := r_tr rs |} st tr o)
+        as (extra & _ & A2 & _). exact A2.
+    + destruct (stop e (r_st rs)) as [[st tr] o] eqn:H.
+      destruct (absorb_delta {| r_st := r_st rs; r_stopped := true; r_roots := r_roots rs; r_tr := r_tr rs |} st tr o)
+        as (extra & _ & _ & A3 & A4).
+      eexists. split; [exact A3|]. apply liftx_delta; [|exact A4].
+      destruct HI as [HI|HI]; [rewrite HI, stop_fin in H; inv H; constructor|].
+      rewrite Hs in HI. destruct (start_stop_l e) as [_ P]. destruct (P _ _ _ _ _ H HI) as (_ & T & _).
+      apply trs_forall. exact T.
+Qed.
+
+Theorem after_stop_starts_stopped e pre s1 s2 :
+  exists d, r_tr (exec e pre (s1 ++ EvStop :: s2)) = r_tr (exec e pre s1) ++ d /\
+            Forall (liftx (sees_stop e)) d.
+Proof.
+  rewrite exec_app.
+  change (fold_left (run_ev e) (EvStop :: s2) (exec e pre s1))
+    with (fold_left (run_ev e) s2 (run_ev e (exec e pre s1) EvStop)).
+  assert (HI : IL e (exec e pre s1)) by apply exec_live.
+  destruct (stop_step e _ HI) as [HJ (d1 & E1 & F1)].
+  destruct (fold_suffix e (JS e) (sees_stop e) (stopped_step e) s2 _ HJ) as [_ (d2 & E2 & F2)].
+  exists (d1 ++ d2). rewrite E2, E1, app_assoc. split; [reflexivity|]. apply Forall_app. auto.
+Qed.
+
+Theorem prestopped_starts_stopped e script :
+  Forall (liftx (sees_stop e)) (r_tr (exec e true script)).
+Proof.
+  unfold exec.
+  assert (H0 : JS e (run_start e true) /\ Forall (liftx (sees_stop e)) (r_tr (run_start e true))).
+  { split; [split; [apply run_start_l|]|]; unfold run_start;
+      destruct (start e (root_env true)) as [[st tr] o] eqn:H;
+      destruct (absorb_delta {| r_st := OFin; r_stopped := true; r_roots := 0; r_tr := [] |} st tr o)
+        as (extra & _ & A2 & A3 & A4).
+    - exact A2.
+    - rewrite A3. simpl. apply liftx_delta; [|exact A4].
+      destruct (start_stop_l e) as [S _]. destruct (S _ _ _ _ H) as [_ T].
+      apply trs_forall. apply T. reflexivity. }
+  destruct H0 as [HJ F0].
+  destruct (fold_suffix e (JS e) (sees_stop e) (stopped_step e) script _ HJ) as [_ (d & E & F)].
+  rewrite E. apply Forall_app. auto.
+Qed.
+
+(* with unique identifiers: "connected" and "below unstoppable" exclude each other *)
+Lemma sreach_ids e id : In id (sreach e) -> In id (leaf_ids e).
+Proof.
+  induction e; simpl; auto.
+  - destruct (is_unst k); [intros []|auto].
+  - rewrite !in_app_iff. tauto.
+Qed.
+Lemma under_ids e id : In id (under_unst e) -> In id (leaf_ids e).
+Proof.
+  induction e; simpl; auto.
+  - destruct (is_unst k); auto.
+  - rewrite !in_app_iff. tauto.
+Qed.
+Lemma sreach_not_under e id : NoDup (leaf_ids e) -> In id (sreach e) -> ~ In id (under_unst e).
+Proof.
+  induction e; simpl; intros ND H1 H2; try contradiction.
+  - destruct (is_unst k); [contradiction|]. exact (IHe ND H1 H2).
+  - apply in_app_or in H1. apply in_app_or in H2.
+    destruct H1 as [H1|H1], H2 as [H2|H2].
+    + exact (IHe1 (nodup_app_l _ _ _ ND) H1 H2).
+    + eapply nodup_app_disj; [exact ND|apply sreach_ids; exact H1|apply under_ids; exact H2].
+    + eapply nodup_app_disj; [exact ND|apply under_ids; exact H2|apply sreach_ids; exact H1].
+    + exact (IHe2 (nodup_app_r _ _ _ ND) H1 H2).
+Qed.
+
+Theorem after_stop_connected_start_stopped e pre s1 s2 :
+  NoDup (leaf_ids e) ->
+  exists d, r_tr (exec e pre (s1 ++ EvStop :: s2)) = r_tr (exec e pre s1) ++ d /\
+    forall id s sp a b, In (XT (TLeafStart id s sp a b)) d -> In id (sreach e) -> s = true.
+Proof.
+  intros ND. destruct (after_stop_starts_stopped e pre s1 s2) as (d & E & F).
+  exists d. split; [exact E|]. intros id s sp a b Hin Hr.
+  rewrite Forall_forall in F. specialize (F _ Hin). simpl in F.
+  destruct F as [F|F]; [exact F|]. exfalso. eapply sreach_not_under; eassumption.
+Qed.
+
+Theorem prestopped_connected_start_stopped e script id s sp a b :
+  NoDup (leaf_ids e) ->
+  In (XT (TLeafStart id s sp a b)) (r_tr (exec e true script)) -> In id (sreach e) -> s = true.
+Proof.
+  intros ND Hin Hr. pose proof (prestopped_starts_stopped e script) as F.
+  rewrite Forall_forall in F. specialize (F _ Hin). simpl in F.
+  destruct F as [F|F]; [exact F|]. exfalso. eapply sreach_not_under; eassumption.
+Qed.
+
+(* the state invariant behind A2, in the words of the property: once the root token is stopped,
+   every live node on a path along which the request propagates has a stopped environment,
+   every connected running leaf has seen the request *)
+Theorem stopped_state_invariant e pre script :
+  r_stopped (exec e pre script) = true ->
+  r_st (exec e pre script) = OFin \/
+  (live true e (r_st (exec e pre script)) /\ reach_unseen e (r_st (exec e pre script)) = []).
+Proof.
+  intros Hs. destruct (exec_live e pre script) as [E|HL]; [auto|]. rewrite Hs in HL.
+  right. split; [exact HL|]. apply live_true_unseen. exact HL.
+Qed.
+
+(* leaves whose token cannot be stopped (directly below unstoppable) never see it stopped *)
+Theorem unstoppable_not_stopped e pre script id st sp a b :
+  In (XT (TLeafStart id st sp a b)) (r_tr (exec e pre script)) -> sp = false -> st = false.
+Proof. intros H. exact (proj2 (queries_sees e pre script id st sp a b H)). Qed.
+
+(* ---- A4: deregistered before completion ------------------------------------------------------------ *)
+Theorem root_completes_unregistered e pre script o n :
+  In (XRoot o n) (r_tr (exec e pre script)) -> n = 0.
+Proof.
+  intros H. pose proof (run_events_ok e pre script) as F. rewrite Forall_forall in F. exact (F _ H).
+Qed.
+
+Theorem no_leak e pre script root : ~ In (XT (TLeak root)) (r_tr (exec e pre script)).
+Proof.
+  intros H. pose proof (run_events_ok e pre script) as F. rewrite Forall_forall in F. exact (F _ H).
+Qed.
+
+(* stop_when as it was written (leaky_as_written): the completion on the cancel-callback path delivers
+   with the callback still registered.  [stop_conc_w] is [stop_conc] with the old leak condition. *)
+Definition stop_conc_w (k : bkind) (a b : sexpr) (ns : nst) (sa sb : ost) : res :=
+  let '(sb', trb, rb) := if bdone ns then (sb, [], None) else stop b sb in
+  let '(ns2, _, fin1) :=
+      match rb with
+      | Some ob => conc_child_done k (ns_set_own (stopped_ns ns) true) true ob
+      | None => (ns_set_own (stopped_ns ns) true, false, None)
+      end in
+  match fin1 with
+  | Some _ => finish_conc k ns2 sa sb' trb fin1 (leaky_as_written k)
+  | None =>
+      let '(sa', tra, ra) := if adone ns2 then (sa, [], None) else stop a sa in
+      let '(ns3, _, fin2) :=
+          match ra with
+          | Some oa => conc_child_done k ns2 false oa
+          | None => (ns2, false, None)
+          end in
+      finish_conc k ns3 sa' sb' (trb ++ tra) fin2 (leaky_as_written k)
+  end.
+
+Example leak_as_written_refuted :
+  leaky_as_written BStopWhen = true /\ leaky BStopWhen = false /\
+  (forall ns sa sb tr o, finish_conc BStopWhen ns sa sb tr (Some o) (leaky_as_written BStopWhen) =
+                         (OFin, tr ++ (if reg ns then [TLeak (e_root (n_env ns))] else []), Some o)) /\
+  let e := Bin BStopWhen (LeafN 0) (LeafN 1) in
+  match r_st (run_start e false) with
+  | ONode ns sa sb =>
+      reg ns = true /\
+      stop_conc_w BStopWhen (LeafN 0) (LeafN 1) ns sa sb = (OFin, [TLeafStop 1; TLeafStop 0; TLeak true], Some ODone) /\
+      stop e (ONode ns sa sb) = (OFin, [TLeafStop 1; TLeafStop 0], Some ODone)
+  | _ => False
+  end.
+Proof.
+  split; [reflexivity|]. split; [reflexivity|]. split; [intros; reflexivity|].
+  vm_compute. repeat split.
+Qed.
+
+(* "no TLeafStop for a leaf that is not in reach e st" is false as such: a successor started by the
+   cascade with an already stopped token runs its callback inline.  [stop_only_reach] is the true form. *)
+Example stop_outside_reach_refuted :
+  let e := Bin BLetD (LeafN 0) (Leaf 1) in
+  let st := r_st (run_start e false) in
+  reach e st = [0] /\
+  snd (fst (stop e st)) = [TLeafStop 0; TLeafStart 1 true true 0%Z 0%Z; TLeafStop 1].
+Proof. vm_compute. split; reflexivity. Qed.
